@@ -9,7 +9,7 @@ import MdVerif.Lemmas.CodePipe
 import MdVerif.Props.C03
 
 namespace MdVerif.DocParse2
-open Py DocSpec CodeLaw Inline DocParse Block
+open Py DocSpec CodeLaw Inline DocParse Block Escape
 
 /-! ### 1. the lines of a code block as runs of lines -/
 
@@ -1313,6 +1313,2716 @@ theorem convert_flatCode (d : Doc) (sp : Spelling) (hwf : WF d = true) (hflat : 
     simpa [FlatCodeDoc, List.all_eq_true] using hflat
   obtain ⟨ps, st', hps, hdefs, hpsne, hoks, houts, hadj, _⟩ :=
     printBlocks_flatCode d hne hf (wfBlockList_mem hbl) hnx ⟨sp.choices, 1, []⟩
+  have hprint : print d sp = joinLines (flatLines (ps.map (·.b.g))) := by
+    simp only [print, hps]
+    have : st'.defs = [] := hdefs
+    simp [this, joinLines]
+  rw [hprint, spec, ← houts]
+  exact convert_pieces2 {} rfl rfl ps hpsne hoks hadj
+
+/-! ### 8. code spans among words and escapes: the inline stage -/
+
+/-- a code span as printed (fence, padded body, fence) and the plain text that follows it -/
+structure SpanSeg where
+  n : Nat
+  b : Str
+  t : Str
+
+/-- the body with its padding -/
+def padded (b : Str) : Str := codePad b ++ b ++ codePad b
+
+def spanSrc (n : Nat) (b : Str) : Str := ticks n ++ (padded b ++ ticks n)
+
+def rawSegs (esc : List Char) : List SpanSeg → Str
+  | [] => []
+  | s :: r => spanSrc s.n s.b ++ (escAll esc s.t ++ rawSegs esc r)
+
+/-- the plain texts with the placeholders of the spans (numbered from `n`) between them -/
+def embed (n : Nat) : List SpanSeg → Str
+  | [] => []
+  | s :: r => placeholder n ++ (s.t ++ embed (n + 1) r)
+
+def spanNodes (segs : List SpanSeg) : List StashItem :=
+  segs.map (fun s => .node (codeSpan (Code.codeEscape s.b)))
+
+/-- what the backtick pattern needs of the spans: a fence that the padded body does not close, padding that `strip`
+    removes, and between two spans a non-empty text that does not end with a backslash -/
+def SegsOK : List SpanSeg → Prop
+  | [] => True
+  | s :: r => (∃ k, s.n = k + 1) ∧ spanBodyOk s.n (padded s.b) = true ∧ strip (padded s.b) = s.b ∧
+      (r ≠ [] → s.t ≠ [] ∧ s.t.getLast? ≠ some '\\') ∧ SegsOK r
+
+theorem countBs_escAll_append {esc : List Char} (r Z : Str) (hne : r ≠ []) (hl : r.getLast? ≠ some '\\') :
+    countPrefix '\\' none (escAll esc r ++ Z) = countPrefix '\\' none (escAll esc r) ∧
+    countPrefix '\\' none (escAll esc r) < (escAll esc r).length := by
+  have hlast : (escAll esc r).getLast? ≠ some '\\' := by rw [getLast_escAll esc r hne]; exact hl
+  have hnotall : (escAll esc r).all (· = '\\') = false := by
+    cases h : (escAll esc r).all (· = '\\') with
+    | false => rfl
+    | true =>
+      exfalso
+      have hne' := escAll_ne_nil (esc := esc) hne
+      cases hg : (escAll esc r).getLast? with
+      | none => exact hne' (List.getLast?_eq_none_iff.1 hg)
+      | some z =>
+        have := List.all_eq_true.1 h z (List.mem_of_getLast? hg)
+        simp only [decide_eq_true_eq] at this
+        exact hlast (this ▸ hg)
+  refine ⟨?_, ?_⟩
+  · rw [countPrefix_none, countPrefix_none]
+    exact spanLen_append_of_not_all _ _ _ hnotall
+  · rw [countPrefix_none]
+    have h1 := spanLen_le (· = '\\') (escAll esc r)
+    have h2 : spanLen (· = '\\') (escAll esc r) ≠ (escAll esc r).length := by
+      intro e
+      rw [spanLen_eq_length_iff] at e
+      rw [e] at hnotall; cases hnotall
+    omega
+
+theorem btAt_escAll_then {esc : List Char} (hb : '\\' ∈ esc) (ht : '`' ∈ esc) (prev : Option Char) (r Z : Str)
+    (hne : r ≠ []) (hl : r.getLast? ≠ some '\\') (i : Nat) : btAt prev (escAll esc r ++ Z) i = none := by
+  unfold btAt
+  by_cases hp : prev = some '\\'
+  · simp [hp]
+  · have hp' : (prev == some '\\') = false := by simpa using hp
+    simp only [hp', Bool.false_eq_true, if_false]
+    obtain ⟨hk1, hk2⟩ := countBs_escAll_append (esc := esc) r Z hne hl
+    have hpar := tick_after_run_odd hb ht r
+    have hhead := head_escAll_ne_tick ht r
+    rw [hk1, List.getElem?_append_left hk2]
+    have hne' := escAll_ne_nil (esc := esc) hne
+    generalize escAll esc r = s at hpar hhead hne' hk2
+    have h1 : (decide (countPrefix '\\' none s ≥ 2) && countPrefix '\\' none s % 2 == 0 &&
+        s[countPrefix '\\' none s]? == some '`') = false := by
+      cases hx : s[countPrefix '\\' none s]? == some '`' with
+      | false => simp
+      | true =>
+        have := hpar (by simpa using hx)
+        simp [this]
+    simp only [h1, Bool.false_eq_true, if_false]
+    cases s with
+    | nil => exact absurd rfl hne'
+    | cons c s' =>
+      have hc : c ≠ '`' := by simpa using hhead
+      simp only [List.cons_append]
+      split
+      · rename_i heq
+        exact absurd (List.cons.inj heq).1 hc
+      · rfl
+
+/-- the last character of `s`, or `prev` when `s` is empty -/
+def lastOr (prev : Option Char) (s : Str) : Option Char :=
+  match s.getLast? with
+  | some c => some c
+  | none => prev
+
+/-- the backtick pattern walks over an escaped text that does not end with a backslash -/
+theorem btScan_escAll_then {esc : List Char} (hb : '\\' ∈ esc) (ht : '`' ∈ esc) (Z : Str) (r : Str) :
+    ∀ (prev : Option Char) (i : Nat), r.getLast? ≠ some '\\' →
+      btScan prev (escAll esc r ++ Z) i = btScan (lastOr prev (escAll esc r)) Z (i + (escAll esc r).length) := by
+  induction r with
+  | nil => intro prev i _; simp [escAll, lastOr]
+  | cons c r ih =>
+    intro prev i hl
+    have h0 := btAt_escAll_then hb ht prev (c :: r) Z (by simp) hl i
+    have hl' : r.getLast? ≠ some '\\' := by
+      cases r with
+      | nil => simp
+      | cons d r' => simpa [List.getLast?_cons_cons] using hl
+    have hlast : ∀ (p : Option Char) (x : Char) (s : Str), lastOr p (x :: s) = lastOr (some x) s := by
+      intro p x s
+      cases s with
+      | nil => rfl
+      | cons y s' =>
+        simp only [lastOr, List.getLast?_cons_cons]
+        cases hg : (y :: s').getLast? with
+        | none => exact absurd (List.getLast?_eq_none_iff.1 hg) (by simp)
+        | some z => rfl
+    by_cases h : c ∈ esc
+    · rw [escAll_cons_mem h] at h0 ⊢
+      simp only [List.cons_append] at h0 ⊢
+      rw [btScan, h0]
+      simp only
+      rw [btScan]
+      have : btAt (some '\\') (c :: (escAll esc r ++ Z)) (i + 1) = none := by simp [btAt]
+      rw [this]
+      simp only
+      rw [ih (some c) (i + 1 + 1) hl', hlast, hlast]
+      simp only [List.length_cons]
+      congr 1; omega
+    · rw [escAll_cons_not_mem h] at h0 ⊢
+      simp only [List.cons_append] at h0 ⊢
+      rw [btScan, h0]
+      simp only
+      rw [ih (some c) (i + 1) hl', hlast]
+      simp only [List.length_cons]
+      congr 1; omega
+
+
+theorem lastOr_ne_bs {esc : List Char} (U : Str) (hU : U.getLast? ≠ some '\\') :
+    lastOr none (escAll esc U) ≠ some '\\' := by
+  cases U with
+  | nil => simp [escAll, lastOr]
+  | cons c r =>
+    have := getLast_escAll esc (c :: r) (by simp)
+    unfold lastOr
+    rw [this]
+    cases h : (c :: r).getLast? with
+    | none => simp
+    | some z =>
+      simp only [ne_eq, Option.some.injEq]
+      intro e; subst e; exact hU h
+
+/-- one turn of the pattern loop at a code span that follows escaped text: the span becomes the next placeholder, its
+    `<code>` (atomic, escaped, stripped body) goes into the stash -/
+theorem applyPattern_seg (cfg : Inline.Cfg) (hi : HI) (hb : '\\' ∈ cfg.esc) (ht : '`' ∈ cfg.esc) (U : Str)
+    (hU : U.getLast? ≠ some '\\') (k : Nat) (body X : Str) (hbody : spanBodyOk (k + 1) body = true)
+    (hX : X.head? ≠ some '`') (st : St) :
+    applyPattern cfg hi 0 (escAll cfg.esc U ++ (ticks (k + 1) ++ (body ++ (ticks (k + 1) ++ X)))) 0 st =
+      some (escAll cfg.esc U ++ placeholder st.stash.length ++ X, true, 0,
+        { st with stash := st.stash ++ [.node (codeSpan (Code.codeEscape (strip body)))] }) := by
+  generalize hA : escAll cfg.esc U = A
+  have hscan : btFind (A ++ (ticks (k + 1) ++ (body ++ (ticks (k + 1) ++ X)))) 0 =
+      some ⟨.code, A.length, A.length + (k + 1) + body.length + (k + 1), body⟩ := by
+    simp only [btFind, show ¬ (0 > (A ++ (ticks (k + 1) ++ (body ++ (ticks (k + 1) ++ X)))).length) by omega,
+      if_false, if_true, List.drop_zero]
+    rw [← hA, btScan_escAll_then hb ht _ U none 0 hU]
+    have := btScan_span k body X hbody hX [] (fun c hc => by simp at hc) _ (0 + (escAll cfg.esc U).length)
+      (lastOr_ne_bs (esc := cfg.esc) U hU)
+    simp only [List.nil_append, List.length_nil, Nat.add_zero] at this
+    rw [this]
+    simp
+  have hlen : (A ++ (ticks (k + 1) ++ (body ++ (ticks (k + 1) ++ X)))).length =
+      A.length + (k + 1) + body.length + (k + 1) + X.length := by simp [ticks]; omega
+  have h1 : (A ++ (ticks (k + 1) ++ (body ++ (ticks (k + 1) ++ X)))).take A.length = A := by simp
+  have h2 : pyDrop (A ++ (ticks (k + 1) ++ (body ++ (ticks (k + 1) ++ X))))
+      ((A.length + (k + 1) + body.length + (k + 1) : Nat) : Int) = X := by
+    unfold pyDrop pyIdx
+    rw [hlen]
+    have : ¬ (((A.length + (k + 1) + body.length + (k + 1) : Nat) : Int) < 0) := by omega
+    simp only [this, if_false, Int.toNat_natCast]
+    rw [Nat.min_eq_left (by omega)]
+    rw [← List.append_assoc, ← List.append_assoc, ← List.append_assoc, List.drop_left' (by simp [ticks]; omega)]
+  unfold applyPattern findMatch
+  simp only [show ¬ (0 > (A ++ (ticks (k + 1) ++ (body ++ (ticks (k + 1) ++ X)))).length) by omega, if_false, hscan]
+  simp only [mkEl, Option.isSome_some, Bool.and_self, if_true, stashNode, h1, h2]
+  rfl
+
+
+theorem escAll_placeholder {esc : List Char} (hph : ∀ c ∈ esc, phChar c = false) (n : Nat) :
+    escAll esc (placeholder n) = placeholder n :=
+  escAll_of_no_esc _ (fun x hx hm => by
+    have := phChar_of_mem_placeholder hx
+    rw [hph x hm] at this; cases this)
+
+theorem head_rawSegs (esc : List Char) (segs : List SpanSeg) (h : SegsOK segs) (hne : segs ≠ []) :
+    (rawSegs esc segs).head? = some '`' := by
+  cases segs with
+  | nil => exact absurd rfl hne
+  | cons s r =>
+    obtain ⟨⟨k, hk⟩, _⟩ := h
+    simp [rawSegs, spanSrc, hk, ticks, List.replicate_succ]
+
+/-- **the backtick pass**: one turn of the pattern loop per code span, left to right -/
+theorem pattern0_pass (cfg : Inline.Cfg) (hi : HI) (hb : '\\' ∈ cfg.esc) (ht : '`' ∈ cfg.esc)
+    (hph : ∀ c ∈ cfg.esc, phChar c = false) (segs : List SpanSeg) :
+    ∀ (U : Str) (st : St) (g : Nat), SegsOK segs → (segs ≠ [] → U.getLast? ≠ some '\\') →
+      hiLoop (applyPattern cfg hi) (g + segs.length) (escAll cfg.esc U ++ rawSegs cfg.esc segs) 0 0 st =
+      hiLoop (applyPattern cfg hi) g (escAll cfg.esc (U ++ embed st.stash.length segs)) 0 0
+        { st with stash := st.stash ++ spanNodes segs } := by
+  induction segs with
+  | nil => intro U st g _ _; simp [rawSegs, embed, spanNodes]
+  | cons s r ih =>
+    intro U st g hok hU
+    obtain ⟨⟨k, hk⟩, hbody, hstrip, hnext, hr⟩ := hok
+    have hX : (escAll cfg.esc s.t ++ rawSegs cfg.esc r).head? ≠ some '`' := by
+      by_cases hrn : r = []
+      · subst hrn
+        simp only [rawSegs, List.append_nil]
+        exact head_escAll_ne_tick ht s.t
+      · obtain ⟨htne, _⟩ := hnext hrn
+        have := head_escAll_ne_tick (esc := cfg.esc) ht s.t
+        have hne := escAll_ne_nil (esc := cfg.esc) htne
+        cases hx : escAll cfg.esc s.t with
+        | nil => exact absurd hx hne
+        | cons a b => rw [hx] at this; simpa using this
+    have hstep := applyPattern_seg cfg hi hb ht U (hU (by simp)) k (padded s.b)
+      (escAll cfg.esc s.t ++ rawSegs cfg.esc r) (hk ▸ hbody) hX st
+    rw [show g + (s :: r).length = (g + r.length) + 1 by simp; omega]
+    have hdata : escAll cfg.esc U ++ rawSegs cfg.esc (s :: r) =
+        escAll cfg.esc U ++ (ticks (k + 1) ++ (padded s.b ++ (ticks (k + 1) ++
+          (escAll cfg.esc s.t ++ rawSegs cfg.esc r)))) := by
+      simp [rawSegs, spanSrc, hk, List.append_assoc]
+    rw [hdata, hiLoop_step _ _ _ 0 0 st (by omega) _ _ _ _ hstep]
+    simp only [if_true]
+    have hU' : r ≠ [] → (U ++ placeholder st.stash.length ++ s.t).getLast? ≠ some '\\' := by
+      intro hrn
+      obtain ⟨htne, htl⟩ := hnext hrn
+      rw [List.getLast?_append]
+      cases hx : s.t.getLast? with
+      | none => exact absurd (List.getLast?_eq_none_iff.1 hx) htne
+      | some z => rw [hx] at htl; simpa using htl
+    have := ih (U ++ placeholder st.stash.length ++ s.t)
+      { st with stash := st.stash ++ [.node (codeSpan (Code.codeEscape (strip (padded s.b))))] } g hr hU'
+    have e1 : escAll cfg.esc U ++ placeholder st.stash.length ++ (escAll cfg.esc s.t ++ rawSegs cfg.esc r) =
+        escAll cfg.esc (U ++ placeholder st.stash.length ++ s.t) ++ rawSegs cfg.esc r := by
+      rw [escAll_append, escAll_append, escAll_placeholder hph]; simp [List.append_assoc]
+    rw [e1, this, hstrip]
+    simp [embed, spanNodes, List.append_assoc]
+
+
+theorem escCount_append (esc : List Char) (a b : Str) : escCount esc (a ++ b) = escCount esc a + escCount esc b := by
+  induction a with
+  | nil => simp [escCount, stashOf]
+  | cons c a ih =>
+    by_cases h : c ∈ esc <;>
+      simp only [escCount, stashOf, List.cons_append, List.contains_eq_mem, h, decide_true, decide_false, if_true,
+        Bool.false_eq_true, if_false, List.length_cons] at ih ⊢ <;> omega
+
+theorem stashOf_append (esc : List Char) (a b : Str) : stashOf esc (a ++ b) = stashOf esc a ++ stashOf esc b := by
+  induction a with
+  | nil => rfl
+  | cons c a ih => by_cases h : c ∈ esc <;> simp [stashOf, h, ih]
+
+theorem stashOf_no_esc {esc : List Char} (a : Str) (h : ∀ x ∈ a, x ∉ esc) : stashOf esc a = [] := by
+  induction a with
+  | nil => rfl
+  | cons c a ih =>
+    have hc := h c List.mem_cons_self
+    simp [stashOf, hc, ih (fun x hx => h x (List.mem_cons_of_mem _ hx))]
+
+theorem stashOf_placeholder {esc : List Char} (hph : ∀ c ∈ esc, phChar c = false) (n : Nat) :
+    stashOf esc (placeholder n) = [] :=
+  stashOf_no_esc _ (fun x hx hm => by
+    have := phChar_of_mem_placeholder hx
+    rw [hph x hm] at this; cases this)
+
+/-- the escapable characters of the plain texts of a line -/
+def escCountSegs (esc : List Char) : List SpanSeg → Nat
+  | [] => 0
+  | s :: r => escCount esc s.t + escCountSegs esc r
+
+theorem escCount_embed {esc : List Char} (hph : ∀ c ∈ esc, phChar c = false) (segs : List SpanSeg) (n : Nat) :
+    escCount esc (embed n segs) = escCountSegs esc segs := by
+  induction segs generalizing n with
+  | nil => rfl
+  | cons s r ih =>
+    simp only [embed, escCount_append, escCountSegs, ih]
+    have : escCount esc (placeholder n) = 0 := by simp [escCount, stashOf_placeholder hph]
+    omega
+
+theorem escCountSegs_le (esc : List Char) (segs : List SpanSeg) (hok : SegsOK segs) :
+    escCountSegs esc segs + segs.length ≤ (rawSegs esc segs).length := by
+  induction segs with
+  | nil => simp [escCountSegs, rawSegs]
+  | cons s r ih =>
+    obtain ⟨⟨k, hk⟩, _, _, _, hr⟩ := hok
+    have := escCount_le esc s.t
+    have := ih hr
+    have hsp : 1 ≤ (spanSrc s.n s.b).length := by simp [spanSrc, hk, ticks]; omega
+    simp only [escCountSegs, rawSegs, List.length_append, List.length_cons]
+    omega
+
+/-- the text of the line with the placeholders of its spans -/
+def lineW (n : Nat) (t0 : Str) (segs : List SpanSeg) : Str := t0 ++ embed n segs
+
+theorem mem_embed {n : Nat} {segs : List SpanSeg} {c : Char} (h : c ∈ embed n segs) :
+    phChar c = true ∨ ∃ s ∈ segs, c ∈ s.t := by
+  induction segs generalizing n with
+  | nil => simp [embed] at h
+  | cons s r ih =>
+    simp only [embed, List.mem_append] at h
+    rcases h with h | h | h
+    · exact Or.inl (phChar_of_mem_placeholder h)
+    · exact Or.inr ⟨s, List.mem_cons_self, h⟩
+    · rcases ih h with h | ⟨x, hx, hc⟩
+      · exact Or.inl h
+      · exact Or.inr ⟨x, List.mem_cons_of_mem _ hx, hc⟩
+
+/-- **`__handleInline` on a line of escaped text and code spans**: the spans are stashed by the backtick pattern, the
+    escapes by the escape pattern, nothing else matches -/
+theorem handleInlineTop_segs (cfg : Inline.Cfg) (hE : EscOK cfg.esc) (hph : ∀ c ∈ cfg.esc, phChar c = false)
+    (t0 : Str) (segs : List SpanSeg) (st : St) (hok : SegsOK segs)
+    (ht0 : segs ≠ [] → t0.getLast? ≠ some '\\')
+    (hplain : ∀ c, (c ∈ t0 ∨ ∃ s ∈ segs, c ∈ s.t) → c ≠ '&' ∧ c ≠ '\n') :
+    handleInlineTop cfg (escAll cfg.esc t0 ++ rawSegs cfg.esc segs) st =
+      some (resid cfg.esc (st.stash.length + segs.length) (lineW st.stash.length t0 segs),
+        { st with stash := st.stash ++ spanNodes segs ++ stashOf cfg.esc (lineW st.stash.length t0 segs) }) := by
+  generalize hW : lineW st.stash.length t0 segs = W
+  have hcount : escCount cfg.esc W = escCount cfg.esc t0 + escCountSegs cfg.esc segs := by
+    rw [← hW, lineW, escCount_append, escCount_embed hph]
+  have hWchars : ∀ c ∈ W, c ≠ '&' ∧ c ≠ '\n' := by
+    intro c hc
+    rw [← hW, lineW] at hc
+    rcases List.mem_append.1 hc with hc | hc
+    · exact hplain c (Or.inl hc)
+    · rcases mem_embed hc with h | h
+      · have := phChar_facts h; exact ⟨this.2.2.1, this.2.2.2.2.2.2.2⟩
+      · exact hplain c (Or.inr h)
+  have hamp : '&' ∉ W := fun h => (hWchars _ h).1 rfl
+  have hbr : find [' ', ' ', '\n'] W = none := by
+    rw [find_none_iff]; intro pre post e
+    exact (hWchars '\n' (by rw [e]; simp)).2 rfl
+  have h1 := escCount_le cfg.esc t0
+  have h2 := escCountSegs_le cfg.esc segs hok
+  generalize hraw : escAll cfg.esc t0 ++ rawSegs cfg.esc segs = raw
+  have hrawlen : escCount cfg.esc W + segs.length ≤ raw.length := by
+    rw [← hraw, hcount, List.length_append]; omega
+  obtain ⟨x, hx⟩ : ∃ x, loopFuel raw.length = (((x + 15) + escCount cfg.esc W + 1) + 1) + segs.length :=
+    ⟨loopFuel raw.length - escCount cfg.esc W - segs.length - 17, by
+      have := CodeLaw.loopFuel_ge raw.length; omega⟩
+  unfold handleInlineTop depthFuel
+  rw [show raw.length + 20 = (raw.length + 19) + 1 from rfl]
+  unfold handleInline
+  rw [hx, ← hraw, pattern0_pass cfg _ hE.bs hE.tick hph segs t0 st _ hok ht0]
+  change hiLoop _ _ (escAll cfg.esc (lineW st.stash.length t0 segs)) 0 0 _ = _
+  rw [hW, hiLoop_step _ _ _ 0 0 _ (by omega) _ _ _ _
+    (applyPattern_zero_none cfg _ _ _ (btFind_escAll hE.bs hE.tick W))]
+  simp only [Bool.false_eq_true, if_false, Nat.zero_add]
+  have := escape_pass cfg (fun d p s => handleInline cfg (raw.length + 19) d p s) hE.bs W []
+    { st with stash := st.stash ++ spanNodes segs } (x + 15) (by simp)
+  simp only [List.nil_append] at this
+  rw [hraw] at *
+  rw [this]
+  have hlen : (st.stash ++ spanNodes segs).length = st.stash.length + segs.length := by simp [spanNodes]
+  simp only [hlen]
+  exact hiLoop_inert cfg _ _ _ (inert_resid hE.lbr hE.bang hE.star hE.under W hamp _) (find_break_resid W hbr _)
+    x 14 2 rfl (by omega)
+
+/-! ### 9. `__processPlaceholders` on the residue of such a line -/
+
+/-- `linkText` of a plain (non-atomic) string on the state of the `while data` loop -/
+def lt (x : Str) (rp : List Node × Node) : List Node × Node := linkText x false true rp.1 rp.2
+
+theorem lt_nil (rp : List Node × Node) : lt [] rp = rp := by
+  simp [lt, linkText]
+
+theorem lt_lt (x y : Str) (rp : List Node × Node) : lt y (lt x rp) = lt (x ++ y) rp := by
+  cases x with
+  | nil => simp [lt_nil]
+  | cons a x =>
+    cases y with
+    | nil => simp [lt_nil]
+    | cons b y =>
+      obtain ⟨res, par⟩ := rp
+      cases res with
+      | nil =>
+        obtain ⟨tag, attrs, text, ta, children, tail, tla⟩ := par
+        rcases text with _ | _ | ⟨h, tl⟩ <;> simp [lt, linkText, Node.truthy]
+      | cons l r =>
+        obtain ⟨tag, attrs, text, ta, children, tail, tla⟩ := l
+        rcases tail with _ | _ | ⟨h, tl⟩ <;> simp [lt, linkText, Node.truthy]
+
+/-- one turn of the loop at a placeholder whose stash entry is a string -/
+theorem ppLoop_stepG (S : List StashItem) (nested : Node → Option Node) (data : Str) (g start : Nat)
+    (rp : List Node × Node) (off : Nat) (id : Str) (phEnd : Nat) (s : Str) (h1 : start ≤ data.length)
+    (h2 : find phPrefix (data.drop start) = some off) (h3 : findPh data (start + off) = (some id, phEnd))
+    (h4 : stashGet S id = some (.str s)) :
+    ppLoop S nested data false true (g + 1) start rp.1 rp.2 =
+      ppLoop S nested data false true g phEnd (lt s (lt (Inline.slice data start (start + off)) rp)).1
+        (lt s (lt (Inline.slice data start (start + off)) rp)).2 := by
+  have hle : ¬ start > data.length := by omega
+  simp only [ppLoop, hle, if_false, h2, h3, Option.bind_some, h4]
+  by_cases hi : start + off > 0
+  · simp [hi, lt]
+  · have h0 : start = 0 ∧ off = 0 := by omega
+    simp [h0.1, h0.2, Inline.slice, lt, linkText]
+
+/-- one turn of the loop at a placeholder whose stash entry is an element that `nested` leaves alone -/
+theorem ppLoop_stepNode (S : List StashItem) (nested : Node → Option Node) (data : Str) (g start : Nat)
+    (rp : List Node × Node) (off : Nat) (id : Str) (phEnd : Nat) (nd : Node) (h1 : start ≤ data.length)
+    (h2 : find phPrefix (data.drop start) = some off) (h3 : findPh data (start + off) = (some id, phEnd))
+    (h4 : stashGet S id = some (.node nd)) (h5 : nested nd = some nd) :
+    ppLoop S nested data false true (g + 1) start rp.1 rp.2 =
+      ppLoop S nested data false true g phEnd (nd :: (lt (Inline.slice data start (start + off)) rp).1)
+        (lt (Inline.slice data start (start + off)) rp).2 := by
+  have hle : ¬ start > data.length := by omega
+  simp only [ppLoop, hle, if_false, h2, h3, Option.bind_some, h4, h5]
+  by_cases hi : start + off > 0
+  · simp [hi, lt]
+  · have h0 : start = 0 ∧ off = 0 := by omega
+    simp [h0.1, h0.2, Inline.slice, lt, linkText]
+
+theorem ppLoop_endG (S : List StashItem) (nested : Node → Option Node) (data : Str) (g start : Nat)
+    (rp : List Node × Node) (h1 : start ≤ data.length) (h2 : find phPrefix (data.drop start) = none) :
+    ppLoop S nested data false true (g + 1) start rp.1 rp.2 =
+      some ((lt (data.drop start) rp).1.reverse, (lt (data.drop start) rp).2) := by
+  have hle : ¬ start > data.length := by omega
+  simp [ppLoop, hle, h2, lt]
+
+
+/-- what follows a plain segment in the data: whatever text `B'` is still pending when the loop gets there, the loop
+    continues as `K` says from the consumed prefix and the state after linking `B'` -/
+def NextOK (S : List StashItem) (nested : Node → Option Node) (Z : Str) (g : Nat)
+    (K : Str → List Node × Node → Option (List Node × Node)) : Prop :=
+  ∀ (P' B' : Str) (rp' : List Node × Node), STX ∉ B' →
+    ppLoop S nested (P' ++ B' ++ Z) false true g P'.length rp'.1 rp'.2 = K (P' ++ B') (lt B' rp')
+
+/-- the loop over the residue of a plain segment: the stashed codes are put back, text is linked to the last node -/
+theorem ppLoop_seg (esc : List Char) (S : List StashItem) (nested : Node → Option Node) (Z : Str) (g : Nat)
+    (K : Str → List Node × Node → Option (List Node × Node)) (hK : NextOK S nested Z g K) (r : Str) :
+    ∀ (P B : Str) (n : Nat) (rp : List Node × Node) (rest : List StashItem), STX ∉ B → STX ∉ r →
+      S.drop n = stashOf esc r ++ rest →
+      ppLoop S nested (P ++ B ++ resid esc n r ++ Z) false true (g + escCount esc r) P.length rp.1 rp.2 =
+        K (P ++ B ++ resid esc n r) (lt (B ++ coded esc r) rp) := by
+  induction r with
+  | nil =>
+    intro P B n rp rest hB _ _
+    simp only [resid, List.append_nil, coded, escCount, stashOf, List.length_nil, Nat.add_zero]
+    exact hK P B rp hB
+  | cons c r ih =>
+    intro P B n rp rest hB hr hS
+    have hr' : STX ∉ r := fun h => hr (List.mem_cons_of_mem _ h)
+    by_cases hc : c ∈ esc
+    · have hcount : escCount esc (c :: r) = escCount esc r + 1 := by simp [escCount, stashOf, hc]
+      have hres : resid esc n (c :: r) = placeholder n ++ resid esc (n + 1) r := by simp [resid, hc]
+      have hst : stashOf esc (c :: r) = .str (escCode c) :: stashOf esc r := by simp [stashOf, hc]
+      rw [hst] at hS
+      have hSn : S[n]? = some (.str (escCode c)) := by
+        have := congrArg List.head? hS
+        simpa [List.head?_drop] using this
+      have hS' : S.drop (n + 1) = stashOf esc r ++ rest := by
+        have := congrArg List.tail hS
+        simpa [List.tail_drop] using this
+      generalize hX : resid esc (n + 1) r ++ Z = X
+      have hdata : P ++ B ++ resid esc n (c :: r) ++ Z = (P ++ B) ++ placeholder n ++ X := by
+        rw [hres, ← hX]; simp [List.append_assoc]
+      have hdrop : (P ++ B ++ placeholder n ++ X).drop P.length = B ++ phPrefix ++ ((pad4 n ++ [ETX]) ++ X) := by
+        rw [placeholder_eq]; simp [List.append_assoc]
+      have hfind : find phPrefix ((P ++ B ++ placeholder n ++ X).drop P.length) = some B.length := by
+        rw [hdrop]; exact find_prefix_after B _ hB
+      have hph := findPh_placeholder (P ++ B) n X
+      rw [List.length_append] at hph
+      have hslice : Inline.slice (P ++ B ++ placeholder n ++ X) P.length (P.length + B.length) = B := by
+        have : (P ++ B ++ placeholder n ++ X).take (P.length + B.length) = P ++ B := by
+          rw [← List.length_append, List.append_assoc (P ++ B)]; exact List.take_left' rfl
+        rw [Inline.slice, this]; simp
+      rw [hdata, hcount, show g + (escCount esc r + 1) = (g + escCount esc r) + 1 by omega,
+        ppLoop_stepG S nested _ _ P.length rp B.length (pad4 n) _ (escCode c) (by simp) hfind hph
+          (by rw [stashGet_pad4]; exact hSn), hslice]
+      have := ih (P ++ B ++ placeholder n) [] (n + 1) (lt (escCode c) (lt B rp)) rest (by simp) hr' hS'
+      simp only [List.append_nil, List.nil_append] at this
+      have e2 : P ++ B ++ placeholder n ++ X = P ++ B ++ placeholder n ++ resid esc (n + 1) r ++ Z := by
+        rw [← hX]; simp [List.append_assoc]
+      rw [e2, this, lt_lt, lt_lt, hres]
+      simp [coded, hc, List.append_assoc]
+    · have hcs : c ≠ STX := fun e => hr (e ▸ List.mem_cons_self)
+      have hcount : escCount esc (c :: r) = escCount esc r := by simp [escCount, stashOf, hc]
+      have hB' : STX ∉ B ++ [c] := by
+        intro hh; rcases List.mem_append.1 hh with hh | hh
+        · exact hB hh
+        · have e : STX = c := by simpa using hh
+          exact hcs e.symm
+      have hst : stashOf esc (c :: r) = stashOf esc r := by simp [stashOf, hc]
+      rw [hst] at hS
+      have := ih P (B ++ [c]) n rp rest hB' hr' hS
+      simp only [List.append_assoc, List.singleton_append] at this
+      simp only [resid, coded, List.contains_eq_mem, hc, decide_false, Bool.false_eq_true, if_false, hcount,
+        List.append_assoc]
+      exact this
+
+
+theorem nextOK_end (S : List StashItem) (nested : Node → Option Node) (g : Nat) :
+    NextOK S nested [] (g + 1) (fun _ st => some (st.1.reverse, st.2)) := by
+  intro P' B' rp' hB
+  rw [List.append_nil, ppLoop_endG S nested _ g P'.length rp' (by simp)
+    (by simp only [List.drop_left]; exact find_none_of_head hB)]
+  simp
+
+theorem nextOK_node (S : List StashItem) (nested : Node → Option Node) (g m : Nat) (Z' : Str) (nd : Node)
+    (h1 : S[m]? = some (.node nd)) (h2 : nested nd = some nd) :
+    NextOK S nested (placeholder m ++ Z') (g + 1)
+      (fun pre st => ppLoop S nested (pre ++ placeholder m ++ Z') false true g (pre ++ placeholder m).length
+        (nd :: st.1) st.2) := by
+  intro P' B' rp' hB
+  have hdata : P' ++ B' ++ (placeholder m ++ Z') = (P' ++ B') ++ placeholder m ++ Z' := by simp [List.append_assoc]
+  have hdrop : (P' ++ B' ++ placeholder m ++ Z').drop P'.length = B' ++ phPrefix ++ ((pad4 m ++ [ETX]) ++ Z') := by
+    rw [placeholder_eq]; simp [List.append_assoc]
+  have hfind : find phPrefix ((P' ++ B' ++ placeholder m ++ Z').drop P'.length) = some B'.length := by
+    rw [hdrop]; exact find_prefix_after B' _ hB
+  have hph := findPh_placeholder (P' ++ B') m Z'
+  rw [List.length_append] at hph
+  have hslice : Inline.slice (P' ++ B' ++ placeholder m ++ Z') P'.length (P'.length + B'.length) = B' := by
+    have : (P' ++ B' ++ placeholder m ++ Z').take (P'.length + B'.length) = P' ++ B' := by
+      rw [← List.length_append, List.append_assoc (P' ++ B')]; exact List.take_left' rfl
+    rw [Inline.slice, this]; simp
+  rw [hdata, ppLoop_stepNode S nested _ g P'.length rp' B'.length (pad4 m) _ nd (by simp) hfind hph
+    (by rw [stashGet_pad4]; exact h1) h2, hslice]
+
+/-- the residue of the texts between the spans, with the placeholders of the spans -/
+def residSegs (esc : List Char) : Nat → Nat → List SpanSeg → Str
+  | _, _, [] => []
+  | m, n, s :: r => placeholder n ++ (resid esc m s.t ++ residSegs esc (m + escCount esc s.t) (n + 1) r)
+
+/-- the stash entries of the spans are where the placeholders say -/
+def SegStash (S : List StashItem) : Nat → List SpanSeg → Prop
+  | _, [] => True
+  | n, s :: r => S[n]? = some (.node (codeSpan (Code.codeEscape s.b))) ∧ SegStash S (n + 1) r
+
+def stashOfSegs (esc : List Char) : List SpanSeg → List StashItem
+  | [] => []
+  | s :: r => stashOf esc s.t ++ stashOfSegs esc r
+
+/-- the state of the loop after the spans: each `<code>` becomes a node, the text after it its tail -/
+def foldSegs (esc : List Char) : List SpanSeg → List Node × Node → List Node × Node
+  | [], rp => rp
+  | s :: r, rp => foldSegs esc r (lt (coded esc s.t) (codeSpan (Code.codeEscape s.b) :: rp.1, rp.2))
+
+def costSegs (esc : List Char) : Str → List SpanSeg → Nat
+  | t, [] => escCount esc t + 1
+  | t, s :: r => escCount esc t + 1 + costSegs esc s.t r
+
+theorem ppLoop_segs (esc : List Char) (S : List StashItem) (nested : Node → Option Node)
+    (hnested : ∀ x : Str, STX ∉ x → nested (codeSpan x) = some (codeSpan x)) (segs : List SpanSeg) :
+    ∀ (P t : Str) (m n : Nat) (rp : List Node × Node) (g : Nat) (rest : List StashItem), STX ∉ t →
+      (∀ s ∈ segs, STX ∉ s.t ∧ STX ∉ Code.codeEscape s.b) →
+      S.drop m = stashOf esc t ++ stashOfSegs esc segs ++ rest → SegStash S n segs →
+      ppLoop S nested (P ++ resid esc m t ++ residSegs esc (m + escCount esc t) n segs) false true
+        (g + costSegs esc t segs) P.length rp.1 rp.2 =
+        some ((foldSegs esc segs (lt (coded esc t) rp)).1.reverse, (foldSegs esc segs (lt (coded esc t) rp)).2) := by
+  induction segs with
+  | nil =>
+    intro P t m n rp g rest ht _ hS _
+    have := ppLoop_seg esc S nested [] (g + 1) _ (nextOK_end S nested g) t P [] m rp (stashOfSegs esc [] ++ rest)
+      (by simp) ht (by simpa [List.append_assoc] using hS)
+    simp only [List.append_nil, List.nil_append] at this
+    simp only [residSegs, List.append_nil, costSegs, foldSegs]
+    rw [show g + (escCount esc t + 1) = g + 1 + escCount esc t by omega, this]
+  | cons s r ih =>
+    intro P t m n rp g rest ht hsegs hS hst
+    obtain ⟨hs1, hs2⟩ := hsegs s List.mem_cons_self
+    have hK := nextOK_node S nested (g + costSegs esc s.t r) n
+      (resid esc (m + escCount esc t) s.t ++ residSegs esc (m + escCount esc t + escCount esc s.t) (n + 1) r)
+      (codeSpan (Code.codeEscape s.b)) hst.1 (hnested _ hs2)
+    have := ppLoop_seg esc S nested _ _ _ hK t P [] m rp (stashOfSegs esc (s :: r) ++ rest)
+      (by simp) ht (by simpa [List.append_assoc] using hS)
+    simp only [List.append_nil, List.nil_append] at this
+    simp only [residSegs, costSegs, foldSegs]
+    rw [show g + (escCount esc t + 1 + costSegs esc s.t r) = g + costSegs esc s.t r + 1 + escCount esc t by omega,
+      this]
+    have hS' : S.drop (m + escCount esc t) = stashOf esc s.t ++ stashOfSegs esc r ++ rest := by
+      have : S.drop (m + escCount esc t) = (S.drop m).drop (escCount esc t) := by rw [List.drop_drop]
+      rw [this, hS]
+      simp [escCount, stashOfSegs, List.append_assoc]
+    have := ih (P ++ resid esc m t ++ placeholder n) s.t (m + escCount esc t) (n + 1)
+      (codeSpan (Code.codeEscape s.b) :: (lt (coded esc t) rp).1, (lt (coded esc t) rp).2) g rest hs1
+      (fun x hx => hsegs x (List.mem_cons_of_mem _ hx)) hS' hst.2
+    simp only [List.append_assoc] at this ⊢
+    exact this
+
+
+/-! #### the residue and the stash of a line -/
+
+theorem resid_append (esc : List Char) (a b : Str) (m : Nat) :
+    resid esc m (a ++ b) = resid esc m a ++ resid esc (m + escCount esc a) b := by
+  induction a generalizing m with
+  | nil => simp [resid, escCount, stashOf]
+  | cons c a ih =>
+    by_cases h : c ∈ esc
+    · have : escCount esc (c :: a) = escCount esc a + 1 := by simp [escCount, stashOf, h]
+      simp only [List.cons_append, resid, List.contains_eq_mem, h, decide_true, if_true, ih, this, List.append_assoc]
+      rw [show m + 1 + escCount esc a = m + (escCount esc a + 1) by omega]
+    · have : escCount esc (c :: a) = escCount esc a := by simp [escCount, stashOf, h]
+      simp only [List.cons_append, resid, List.contains_eq_mem, h, decide_false, Bool.false_eq_true, if_false, ih,
+        this, List.cons_append]
+
+theorem resid_no_esc {esc : List Char} (a : Str) (h : ∀ x ∈ a, x ∉ esc) (m : Nat) : resid esc m a = a := by
+  induction a with
+  | nil => rfl
+  | cons c a ih =>
+    have hc := h c List.mem_cons_self
+    simp [resid, hc, ih (fun x hx => h x (List.mem_cons_of_mem _ hx))]
+
+theorem ph_no_esc {esc : List Char} (hph : ∀ c ∈ esc, phChar c = false) (n : Nat) : ∀ x ∈ placeholder n, x ∉ esc :=
+  fun x hx hm => by
+    have := phChar_of_mem_placeholder hx
+    rw [hph x hm] at this; cases this
+
+theorem resid_embed {esc : List Char} (hph : ∀ c ∈ esc, phChar c = false) (segs : List SpanSeg) :
+    ∀ (m n : Nat), resid esc m (embed n segs) = residSegs esc m n segs := by
+  induction segs with
+  | nil => intro m n; rfl
+  | cons s r ih =>
+    intro m n
+    have h0 : escCount esc (placeholder n) = 0 := by simp [escCount, stashOf_placeholder hph]
+    simp only [embed, residSegs, resid_append, resid_no_esc _ (ph_no_esc hph n), h0, Nat.add_zero, ih]
+
+theorem stashOf_embed {esc : List Char} (hph : ∀ c ∈ esc, phChar c = false) (segs : List SpanSeg) (n : Nat) :
+    stashOf esc (embed n segs) = stashOfSegs esc segs := by
+  induction segs generalizing n with
+  | nil => rfl
+  | cons s r ih => simp only [embed, stashOf_append, stashOf_placeholder hph, List.nil_append, stashOfSegs, ih]
+
+theorem segStash_nodes (A : List StashItem) (segs : List SpanSeg) (E : List StashItem) :
+    SegStash (A ++ spanNodes segs ++ E) A.length segs := by
+  induction segs generalizing A with
+  | nil => trivial
+  | cons s r ih =>
+    refine ⟨?_, ?_⟩
+    · simp [spanNodes]
+    · have := ih (A ++ [.node (codeSpan (Code.codeEscape s.b))])
+      simpa [spanNodes, List.append_assoc] using this
+
+/-- a `<code>` of a span with the text that follows it as its tail -/
+def tailed (esc : List Char) (s : SpanSeg) : Node :=
+  { codeSpan (Code.codeEscape s.b) with tail := optStr (coded esc s.t) }
+
+theorem lt_code (x : Str) (t : Str) (res : List Node) (par : Node) :
+    lt x (codeSpan t :: res, par) = ({ codeSpan t with tail := optStr x } :: res, par) := by
+  cases x with
+  | nil => simp [lt, linkText, optStr, codeSpan, Node.el]
+  | cons c r => simp [lt, linkText, optStr, codeSpan, Node.el, Node.truthy]
+
+theorem foldSegs_closed (esc : List Char) (segs : List SpanSeg) :
+    ∀ (res : List Node) (par : Node), foldSegs esc segs (res, par) = ((segs.map (tailed esc)).reverse ++ res, par) := by
+  induction segs with
+  | nil => intro res par; rfl
+  | cons s r ih =>
+    intro res par
+    simp only [foldSegs, lt_code, ih, List.map_cons, List.reverse_cons, List.append_assoc, List.singleton_append,
+      tailed]
+
+theorem costSegs_le (esc : List Char) (segs : List SpanSeg) :
+    ∀ (t : Str) (m n : Nat),
+      costSegs esc t segs ≤ (resid esc m t ++ residSegs esc (m + escCount esc t) n segs).length + 1 := by
+  induction segs with
+  | nil =>
+    intro t m n
+    have := escCount_le_resid esc t m
+    simp only [costSegs, residSegs, List.append_nil]; omega
+  | cons s r ih =>
+    intro t m n
+    have h1 := escCount_le_resid esc t m
+    have h2 := ih s.t (m + escCount esc t) (n + 1)
+    have h3 := placeholder_length_pos n
+    simp only [costSegs, residSegs, List.length_append] at h2 ⊢
+    omega
+
+
+/-- **`__processPlaceholders`** on the residue of a line of escaped text and code spans -/
+theorem ppTop_segs (esc : List Char) (hph : ∀ c ∈ esc, phChar c = false) (S0 : List StashItem) (html : List Str)
+    (t0 : Str) (segs : List SpanSeg) (parent : Node) (hp1 : parent.text = none) (hp2 : parent.textAtomic = false)
+    (ht0 : STX ∉ t0) (hsegs : ∀ s ∈ segs, STX ∉ s.t ∧ STX ∉ Code.codeEscape s.b) (hne : t0 ≠ [] ∨ segs ≠ []) :
+    ppTop { stash := S0 ++ spanNodes segs ++ stashOf esc (lineW S0.length t0 segs), html := html }
+        (resid esc (S0.length + segs.length) (lineW S0.length t0 segs)) false parent true =
+      some (segs.map (tailed esc), { parent with text := optStr (coded esc t0) }) := by
+  generalize hS : S0 ++ spanNodes segs ++ stashOf esc (lineW S0.length t0 segs) = S
+  have hR : resid esc (S0.length + segs.length) (lineW S0.length t0 segs) =
+      resid esc (S0.length + segs.length) t0 ++
+        residSegs esc (S0.length + segs.length + escCount esc t0) S0.length segs := by
+    rw [lineW, resid_append, resid_embed hph]
+  have hE : stashOf esc (lineW S0.length t0 segs) = stashOf esc t0 ++ stashOfSegs esc segs := by
+    rw [lineW, stashOf_append, stashOf_embed hph]
+  have hdrop : S.drop (S0.length + segs.length) = stashOf esc t0 ++ stashOfSegs esc segs ++ [] := by
+    rw [← hS, hE]
+    have : (S0 ++ spanNodes segs).length = S0.length + segs.length := by simp [spanNodes]
+    rw [← this, List.drop_left]; simp
+  have hst : SegStash S S0.length segs := by rw [← hS]; exact segStash_nodes S0 segs _
+  rw [hR]
+  generalize hRR : resid esc (S0.length + segs.length) t0 ++
+        residSegs esc (S0.length + segs.length + escCount esc t0) S0.length segs = R
+  have hRne : R.isEmpty = false := by
+    rw [← hRR]
+    rcases hne with h | h
+    · cases t0 with
+      | nil => exact absurd rfl h
+      | cons c r =>
+        have := placeholder_length_pos (S0.length + segs.length)
+        by_cases hc : c ∈ esc
+        · simp only [resid, List.contains_eq_mem, hc, decide_true, if_true]
+          cases hx : placeholder (S0.length + segs.length) with
+          | nil => rw [hx] at this; simp at this
+          | cons a b => simp
+        · simp [resid, hc]
+    · cases segs with
+      | nil => exact absurd rfl h
+      | cons s r =>
+        have := placeholder_length_pos S0.length
+        simp only [residSegs]
+        cases hx : placeholder S0.length with
+        | nil => rw [hx] at this; simp at this
+        | cons a b => cases resid esc (S0.length + (s :: r).length) t0 <;> simp
+  simp only [ppTop]
+  rw [show S.length + 2 = (S.length + 1) + 1 from rfl]
+  unfold processPlaceholders
+  simp only [hRne, Bool.false_eq_true, if_false]
+  have hcost := costSegs_le esc segs t0 (S0.length + segs.length) S0.length
+  rw [hRR] at hcost
+  obtain ⟨g, hg⟩ : ∃ g, R.length + 2 = g + costSegs esc t0 segs := ⟨R.length + 2 - costSegs esc t0 segs, by omega⟩
+  rw [hg]
+  have := ppLoop_segs esc S
+    (procNode fun d a p t_1 => processPlaceholders S (S.length + 1) d a p t_1)
+    (fun x hx => procNode_codeSpan S (S.length + 1) (by omega) x hx)
+    segs [] t0 (S0.length + segs.length) S0.length ([], parent) g [] ht0 hsegs hdrop hst
+  simp only [List.nil_append, List.length_nil] at this
+  rw [hRR] at this
+  rw [this]
+  have hlt : lt (coded esc t0) ([], parent) = ([], { parent with text := optStr (coded esc t0) }) := by
+    simp only [lt]; exact CodeLaw.linkText_text _ parent hp1 hp2
+  rw [hlt, foldSegs_closed]
+  simp
+
+/-- a `p`/`h1`–`h6` element whose text is escaped text and code spans -/
+def spanTxtSrc (esc : List Char) (tag : Str) (t0 : Str) (segs : List SpanSeg) : Node :=
+  { tag := .name tag, text := some (escAll esc t0 ++ rawSegs esc segs) }
+
+/-- the same after the inline processor -/
+def spanTxtMid (esc : List Char) (tag : Str) (t0 : Str) (segs : List SpanSeg) : Node :=
+  { tag := .name tag, text := optStr (coded esc t0), children := segs.map (tailed esc) }
+
+theorem visitChild_spanTxt (cfg : Inline.Cfg) (hE : EscOK cfg.esc) (hph : ∀ c ∈ cfg.esc, phChar c = false)
+    (tag t0 : Str) (segs : List SpanSeg) (hok : SegsOK segs) (ht0 : segs ≠ [] → t0.getLast? ≠ some '\\')
+    (hplain : ∀ c, (c ∈ t0 ∨ ∃ s ∈ segs, c ∈ s.t) → c ≠ '&' ∧ c ≠ '\n' ∧ c ≠ STX)
+    (hbody : ∀ s ∈ segs, STX ∉ Code.codeEscape s.b) (hne : t0 ≠ [] ∨ segs ≠ []) (v : Visit) :
+    visitChild cfg (spanTxtSrc cfg.esc tag t0 segs) v =
+      some (spanTxtMid cfg.esc tag t0 segs, [],
+        { v with pushes := ((List.range segs.length).map (fun k => [v.done.length, k])).reverse ++ v.pushes,
+                 st := { v.st with stash := v.st.stash ++ (spanNodes segs ++
+                   stashOf cfg.esc (lineW v.st.stash.length t0 segs)) } }) := by
+  have hraw : escAll cfg.esc t0 ++ rawSegs cfg.esc segs ≠ [] := by
+    rcases hne with h | h
+    · have := escAll_ne_nil (esc := cfg.esc) h
+      cases hx : escAll cfg.esc t0 with
+      | nil => exact absurd hx this
+      | cons a b => simp
+    · have := head_rawSegs cfg.esc segs hok h
+      intro e
+      have e2 : rawSegs cfg.esc segs = [] := (List.append_eq_nil_iff.1 e).2
+      rw [e2] at this; simp at this
+  have h1 := handleInlineTop_segs cfg hE hph t0 segs v.st hok ht0
+    (fun c hc => ⟨(hplain c hc).1, (hplain c hc).2.1⟩)
+  have h2 := ppTop_segs cfg.esc hph v.st.stash v.st.html t0 segs
+    { tag := .name tag } rfl rfl (fun h => (hplain _ (Or.inl h)).2.2 rfl)
+    (fun s hs => ⟨fun h => (hplain _ (Or.inr ⟨s, hs, h⟩)).2.2 rfl, hbody s hs⟩) hne
+  simp only [spanTxtSrc, visitChild, truthy_some hraw, Bool.not_false, Bool.and_self, if_true, Option.getD_some, h1]
+  rw [h2]
+  simp [spanTxtMid, Node.truthy, List.append_assoc]
+
+/-! ### 10. a text element with code spans through prettify, unescape and the serializer -/
+
+theorem bl_code' : TreeProc.isBlockLevel TreeProc.defaultBlockLevel (.name "code".toList) = false := by decide
+
+theorem prettifyKids_tailed (esc : List Char) (segs : List SpanSeg) :
+    TreeProc.prettifyKids TreeProc.defaultBlockLevel (segs.map (tailed esc)) = segs.map (tailed esc) := by
+  induction segs with
+  | nil => rfl
+  | cons s r ih =>
+    have : TreeProc.isBlockLevel TreeProc.defaultBlockLevel (tailed esc s).tag = false := bl_code'
+    simp only [List.map_cons, TreeProc.prettifyKids, this, Bool.false_eq_true, if_false, ih]
+
+theorem mapKids_tailed (esc : List Char) (segs : List SpanSeg) :
+    TreeProc.mapKids TreeProc.preRule (TreeProc.mapKids TreeProc.brRule (segs.map (tailed esc))) =
+      segs.map (tailed esc) := by
+  induction segs with
+  | nil => rfl
+  | cons s r ih =>
+    simp only [List.map_cons, TreeProc.mapKids, ih]
+    congr 1
+
+/-- after prettify -/
+def spanTxtPretty (esc : List Char) (tag : Str) (t0 : Str) (segs : List SpanSeg) : Node :=
+  { tag := .name tag, text := optStr (coded esc t0), children := segs.map (tailed esc), tail := some ['\n'] }
+
+theorem pretty_spanTxt (esc : List Char) (tag : Str) (htag : textTags.contains tag = true) (t0 : Str)
+    (segs : List SpanSeg) :
+    TreeProc.mapTree TreeProc.preRule (TreeProc.mapTree TreeProc.brRule
+      (TreeProc.prettifyETree TreeProc.defaultBlockLevel (spanTxtMid esc tag t0 segs))) =
+      spanTxtPretty esc tag t0 segs := by
+  have hf := tagFacts tag (List.mem_cons_of_mem _ (List.contains_iff_mem.1 htag))
+  have hbr : (Tag.name tag == Tag.name "br".toList) = false := by simpa using hf.2.2.2.1
+  have hpre : (Tag.name tag == Tag.name "pre".toList) = false := by simpa using hf.2.2.1
+  have hcode : (Tag.name tag == Tag.name "code".toList) = false := by simpa using hf.2.1
+  have h1 : TreeProc.prettifyETree TreeProc.defaultBlockLevel (spanTxtMid esc tag t0 segs) =
+      spanTxtPretty esc tag t0 segs := by
+    cases segs with
+    | nil => simp [spanTxtMid, spanTxtPretty, TreeProc.prettifyETree, TreeProc.prettifyKids, TreeProc.blankOrNone,
+        Node.truthy]
+    | cons s r =>
+      have hk := prettifyKids_tailed esc (s :: r)
+      simp only [List.map_cons] at hk
+      have hb : TreeProc.isBlockLevel TreeProc.defaultBlockLevel (tailed esc s).tag = false := bl_code'
+      simp only [spanTxtMid, spanTxtPretty, TreeProc.prettifyETree, List.map_cons, hb, hk, Bool.and_false,
+        Bool.false_eq_true, if_false, hf.1, hcode, hpre, Bool.not_false, Bool.and_self, if_true,
+        TreeProc.blankOrNone, Node.truthy, Bool.true_or]
+  rw [h1]
+  simp only [spanTxtPretty, TreeProc.mapTree, TreeProc.brRule, TreeProc.preRule, TreeProc.tagIs, hbr, hpre,
+    Bool.false_eq_true, if_false, mapKids_tailed]
+
+
+/-- a `<code>` of a span with the plain text that follows it (after unescape) as its tail -/
+def tailedFin (s : SpanSeg) : Node := { codeSpan (Code.codeEscape s.b) with tail := optStr s.t }
+
+/-- after unescape -/
+def spanTxtFin (tag : Str) (t0 : Str) (segs : List SpanSeg) : Node :=
+  { tag := .name tag, text := optStr t0, children := segs.map tailedFin, tail := some ['\n'] }
+
+theorem unescOpt_coded (esc : List Char) (t : Str) (hstx : Inline.STX ∉ t) :
+    (if Node.truthy (optStr (coded esc t)) = true then (TreeProc.unescapeText 0 ((optStr (coded esc t)).getD [])).map some
+      else some (optStr (coded esc t))) = some (optStr t) := by
+  cases t with
+  | nil => rfl
+  | cons c r =>
+    have hne : coded esc (c :: r) ≠ [] := coded_ne_nil (by simp)
+    obtain ⟨a, b, hab⟩ : ∃ a b, coded esc (c :: r) = a :: b := by
+      cases h : coded esc (c :: r) with
+      | nil => exact absurd h hne
+      | cons a b => exact ⟨a, b, rfl⟩
+    have hu := unescapeText_coded (esc := esc) (c :: r) hstx
+    rw [hab] at hu
+    simp [optStr, hab, Node.truthy, hu]
+
+theorem unescapeTree_tailed (esc : List Char) (s : SpanSeg) (hs : Inline.STX ∉ s.t) :
+    TreeProc.unescapeTree (tailed esc s) = some (tailedFin s) := by
+  have h := unescOpt_coded esc s.t hs
+  have t2 : Node.truthy none = false := rfl
+  simp only [tailed, tailedFin, codeSpan, Node.el, TreeProc.unescapeTree, BEq.rfl, Bool.not_true, Bool.and_false,
+    Bool.false_eq_true, if_false, h, TreeProc.unescAttrs, TreeProc.unescapeKids]
+  by_cases ht : Node.truthy (optStr (coded esc s.t)) = true
+  · simp [ht]
+  · have : s.t = [] := by
+      cases hst : s.t with
+      | nil => rfl
+      | cons c r =>
+        exfalso; apply ht
+        have hne : coded esc (c :: r) ≠ [] := coded_ne_nil (by simp)
+        rw [hst]
+        cases hc : coded esc (c :: r) with
+        | nil => exact absurd hc hne
+        | cons a b => simp [optStr, Node.truthy]
+    simp [this, optStr, coded]
+
+theorem unescapeKids_tailed (esc : List Char) (segs : List SpanSeg) (hs : ∀ s ∈ segs, Inline.STX ∉ s.t) :
+    TreeProc.unescapeKids (segs.map (tailed esc)) = some (segs.map tailedFin) := by
+  induction segs with
+  | nil => rfl
+  | cons s r ih =>
+    simp only [List.map_cons, TreeProc.unescapeKids, unescapeTree_tailed esc s (hs s List.mem_cons_self),
+      ih (fun x hx => hs x (List.mem_cons_of_mem _ hx))]
+
+theorem unesc_spanTxt (esc : List Char) (tag : Str) (htag : textTags.contains tag = true) (t0 : Str)
+    (segs : List SpanSeg) (h0 : Inline.STX ∉ t0) (hs : ∀ s ∈ segs, Inline.STX ∉ s.t) :
+    TreeProc.unescapeTree (spanTxtPretty esc tag t0 segs) = some (spanTxtFin tag t0 segs) := by
+  have hf := tagFacts tag (List.mem_cons_of_mem _ (List.contains_iff_mem.1 htag))
+  have hcode : (Tag.name tag == Tag.name "code".toList) = false := by simpa using hf.2.1
+  have hnl : TreeProc.unescapeText 0 ['\n'] = some ['\n'] := by decide
+  have h := unescOpt_coded esc t0 h0
+  have t1 : Node.truthy (some ['\n']) = true := rfl
+  simp only [spanTxtPretty, spanTxtFin, TreeProc.unescapeTree, hcode, Bool.not_false, Bool.and_true, h,
+    unescapeKids_tailed esc segs hs, TreeProc.unescAttrs, t1, if_true, Option.getD_some, hnl, Option.map_some]
+  by_cases ht : Node.truthy (optStr (coded esc t0)) = true <;> simp [ht]
+
+
+/-- serialised spans: `<code>…</code>` and the text after it -/
+def outSegs : List SpanSeg → Str
+  | [] => []
+  | s :: r => "<code>".toList ++ Ser.escCdata (Code.codeEscape s.b) ++ "</code>".toList ++ Ser.escCdata s.t ++ outSegs r
+
+def spanTxtOut (tag : Str) (t0 : Str) (segs : List SpanSeg) : Str :=
+  '<' :: tag ++ ['>'] ++ Ser.escCdata t0 ++ outSegs segs ++ ('<' :: '/' :: tag ++ ['>'])
+
+theorem serialize_tailedFin (s : SpanSeg) :
+    Ser.serialize .xhtml (tailedFin s) =
+      "<code>".toList ++ Ser.escCdata (Code.codeEscape s.b) ++ "</code>".toList ++ Ser.escCdata s.t := by
+  have e : tailedFin s = ⟨.name "code".toList, [], some (Code.codeEscape s.b), true, [], optStr s.t, false⟩ := rfl
+  rw [e, serialize_plain _ _ _ _ _ _ _ (by decide) (by decide)]
+  simp only [Ser.serializeList, optEsc, someEsc]
+  simp [List.append_assoc]
+
+theorem serializeList_cons (fmt : Ser.Fmt) (n : Node) (r : List Node) :
+    Ser.serializeList fmt (n :: r) = Ser.serialize fmt n ++ Ser.serializeList fmt r := by
+  rw [Ser.serializeList]
+
+theorem serializeList_tailed (segs : List SpanSeg) : Ser.serializeList .xhtml (segs.map tailedFin) = outSegs segs := by
+  induction segs with
+  | nil => rfl
+  | cons s r ih =>
+    rw [List.map_cons, serializeList_cons, ih, serialize_tailedFin]
+    rfl
+
+theorem ser_spanTxt (tag : Str) (htag : textTags.contains tag = true) (t0 : Str) (segs : List SpanSeg) :
+    Ser.serialize .xhtml (spanTxtFin tag t0 segs) = spanTxtOut tag t0 segs ++ ['\n'] := by
+  have hf := tagFacts tag (List.mem_cons_of_mem _ (List.contains_iff_mem.1 htag))
+  have hnot : tag ≠ "hr".toList := by
+    intro e
+    have : textTags.contains "hr".toList = false := by decide
+    rw [← e, htag] at this; cases this
+  have he : Ser.isEmptyTag tag = false := by rw [hf.2.2.2.2.2.1]; simpa using hnot
+  have e7 : Ser.escCdata ['\n'] = ['\n'] := by decide
+  have t1 : Node.truthy (some ['\n']) = true := rfl
+  simp only [spanTxtFin]
+  rw [serialize_plain _ _ _ _ _ _ _ he hf.2.2.2.2.1]
+  simp only [serializeList_tailed, optEsc, t1, if_true, Option.getD_some, e7, spanTxtOut]
+  simp [List.append_assoc]
+
+
+theorem stx_not_mem_escCdata (s : Str) (h : Post.STX ∉ s) : Post.STX ∉ Ser.escCdata s := by
+  rw [Ser.onepass_cdata']; exact stx_not_mem_esc1 _ _ s h
+
+theorem outSegs_cons (s : SpanSeg) (r : List SpanSeg) :
+    outSegs (s :: r) = "<code>".toList ++ Ser.escCdata (Code.codeEscape s.b) ++ "</code>".toList ++ Ser.escCdata s.t ++
+      outSegs r := rfl
+
+theorem stx_not_mem_outSegs (segs : List SpanSeg)
+    (h : ∀ s ∈ segs, Post.STX ∉ s.t ∧ Post.STX ∉ Code.codeEscape s.b) : Post.STX ∉ outSegs segs := by
+  induction segs with
+  | nil => intro hm; cases hm
+  | cons s r ih =>
+    obtain ⟨h1, h2⟩ := h s List.mem_cons_self
+    intro hm
+    rw [outSegs_cons] at hm
+    simp only [List.mem_append] at hm
+    rcases hm with (((hm | hm) | hm) | hm) | hm
+    · revert hm; decide
+    · exact stx_not_mem_escCdata _ h2 hm
+    · revert hm; decide
+    · exact stx_not_mem_escCdata _ h1 hm
+    · exact ih (fun x hx => h x (List.mem_cons_of_mem _ hx)) hm
+
+/-- a `p`/`h1`–`h6` element of escaped text and code spans, through the stages -/
+def spanTxtElem (esc : List Char) (tag t0 : Str) (segs : List SpanSeg) : Elem :=
+  ⟨spanTxtSrc esc tag t0 segs, spanTxtMid esc tag t0 segs,
+   spanNodes segs ++ (stashOf esc t0 ++ stashOfSegs esc segs),
+   fun i => ((List.range segs.length).map (fun k => [i, k])).reverse,
+   spanTxtPretty esc tag t0 segs, spanTxtFin tag t0 segs, spanTxtOut tag t0 segs⟩
+
+/-- what the stages need of such a line -/
+structure SpanTxtOK (esc : List Char) (tag t0 : Str) (segs : List SpanSeg) : Prop where
+  htag : textTags.contains tag = true
+  hsegs : SegsOK segs
+  ht0 : segs ≠ [] → t0.getLast? ≠ some '\\'
+  plain : ∀ c, (c ∈ t0 ∨ ∃ s ∈ segs, c ∈ s.t) → c ≠ '&' ∧ c ≠ '\n' ∧ c ≠ Inline.STX
+  body : ∀ s ∈ segs, Inline.STX ∉ Code.codeEscape s.b
+  ne : t0 ≠ [] ∨ segs ≠ []
+
+theorem spanTxtElem_ok (cfg : Inline.Cfg) (hE : EscOK cfg.esc) (hph : ∀ c ∈ cfg.esc, phChar c = false)
+    (tag t0 : Str) (segs : List SpanSeg) (h : SpanTxtOK cfg.esc tag t0 segs) :
+    ElemOK cfg (spanTxtElem cfg.esc tag t0 segs) where
+  visit := fun v => by
+    have := visitChild_spanTxt cfg hE hph tag t0 segs h.hsegs h.ht0 h.plain h.body h.ne v
+    have hE' : stashOf cfg.esc (lineW v.st.stash.length t0 segs) = stashOf cfg.esc t0 ++ stashOfSegs cfg.esc segs := by
+      rw [lineW, stashOf_append, stashOf_embed hph]
+    rw [hE'] at this
+    exact this
+  pushBound := fun i => by
+    have h1 := escCountSegs_le cfg.esc segs h.hsegs
+    simp only [spanTxtElem, List.length_reverse, List.length_map, List.length_range, spanTxtSrc, Inline.size,
+      Option.getD_some, List.length_append, Inline.sizeList]
+    omega
+  pushOk := fun i q hq => by
+    simp only [spanTxtElem, List.mem_reverse, List.mem_map, List.mem_range] at hq
+    obtain ⟨k, hk, rfl⟩ := hq
+    obtain ⟨s, hs⟩ : ∃ s, segs[k]? = some s := by
+      cases hx : segs[k]? with
+      | none => rw [List.getElem?_eq_none_iff] at hx; omega
+      | some s => exact ⟨s, rfl⟩
+    refine ⟨[k], tailed cfg.esc s, rfl, ?_, by simp [tailed, codeSpan, Node.el], ?_⟩
+    · simp [spanTxtElem, spanTxtMid, getAt, hs]
+    · intro c hc; simp [tailed, codeSpan, Node.el] at hc
+  block := (tagFacts tag (List.mem_cons_of_mem _ (List.contains_iff_mem.1 h.htag))).1
+  pretty := pretty_spanTxt cfg.esc tag h.htag t0 segs
+  unesc := unesc_spanTxt cfg.esc tag h.htag t0 segs (fun hm => (h.plain _ (Or.inl hm)).2.2 rfl)
+    (fun s hs hm => (h.plain _ (Or.inr ⟨s, hs, hm⟩)).2.2 rfl)
+  ser := ser_spanTxt tag h.htag t0 segs
+  outOk := by
+    have hf := tagFacts tag (List.mem_cons_of_mem _ (List.contains_iff_mem.1 h.htag))
+    refine ⟨?_, rfl, ?_⟩
+    · intro hm
+      simp only [spanTxtElem, spanTxtOut, List.mem_append, List.mem_cons] at hm
+      have d1 : Post.STX ≠ '<' := by decide
+      have d2 : Post.STX ≠ '>' := by decide
+      have d3 : Post.STX ≠ '/' := by decide
+      have h7 := hf.2.2.2.2.2.2
+      have hE0 : Post.STX ∉ Ser.escCdata t0 :=
+        stx_not_mem_escCdata _ (fun hm' => (h.plain _ (Or.inl hm')).2.2 rfl)
+      have hEs : Post.STX ∉ outSegs segs := stx_not_mem_outSegs segs
+        (fun s hs => ⟨fun hm' => (h.plain _ (Or.inr ⟨s, hs, hm'⟩)).2.2 rfl, h.body s hs⟩)
+      rcases hm with (((h' | h' | h') | h') | h') | (h' | h' | h' | h') <;> simp_all
+    · have e : (spanTxtElem cfg.esc tag t0 segs).out =
+          ('<' :: tag ++ ['>'] ++ Ser.escCdata t0 ++ outSegs segs ++ ('<' :: '/' :: tag)) ++ ['>'] := by
+        simp [spanTxtElem, spanTxtOut]
+      rw [e, List.getLast?_append]; rfl
+
+/-! ### 11. the block parser on a line of escaped text and code spans -/
+
+/-- what the block processors need of the content `X` of a one-line paragraph or heading -/
+structure RawOK (X : Str) : Prop where
+  shape : ∃ c tail, X = c :: tail ∧ isSpace c = false ∧ c ∉ lineEsc
+  nl : '\n' ∉ X
+  last : ∀ d, X.getLast? = some d → isSpace d = false
+  ol : olMarker X = none
+  walk : ∀ (f : Nat) (Y h : Str) (n : Nat), hashHeader f Y = some (h, n) →
+    hashHeader (f + X.length) (X ++ Y) = some (X ++ h, n + X.length)
+
+theorem countPrefix_spaces (i lim : Nat) (c : Char) (tail : Str) (hi : i ≤ lim) (hc : c ≠ ' ') :
+    countPrefix ' ' (some lim) (spaces i ++ c :: tail) = i := by
+  induction i generalizing lim with
+  | zero => cases lim <;> simp [spaces, countPrefix, hc]
+  | succ i ih =>
+    obtain ⟨l, rfl⟩ : ∃ l, lim = l + 1 := ⟨lim - 1, by omega⟩
+    simp only [spaces, List.replicate_succ, List.cons_append, countPrefix, if_true, Option.map_some,
+      Nat.add_sub_cancel] at ih ⊢
+    rw [ih l (by omega)]
+
+theorem startOk_raw (i : Nat) (c : Char) (tail : Str) (hc : c ≠ ' ') (hm : c ∉ lineEsc) :
+    startOk lineEsc (spaces i ++ c :: tail) = true := by
+  rw [startOk_spaces]; exact startOk_of_head c tail hc hm
+
+/-- **A paragraph**: a one-line content `X`, indented by less than a tab, becomes a `p` whose text is `X` -/
+theorem produces_para_raw (tab i : Nat) (hi : i < tab) (X : Str) (hX : RawOK X) :
+    Produces tab (spaces i ++ X) { tag := .name "p".toList, text := some X } := by
+  intro pb refs parent rest
+  obtain ⟨c, tail, rfl, hcs, hce⟩ := hX.shape
+  have hcsp : c ≠ ' ' := by intro e; subst e; exact absurd hcs (by decide)
+  have hcnl : c ≠ '\n' := by intro e; subst e; exact absurd hcs (by decide)
+  have hnlb : '\n' ∉ spaces i ++ c :: tail := by
+    intro hm; rcases List.mem_append.1 hm with hm | hm
+    · exact absurd (List.eq_of_mem_replicate hm) (by decide)
+    · exact hX.nl hm
+  have hl : LineStartsOk lineEsc (spaces i ++ c :: tail) = true := by
+    simp only [LineStartsOk, startOk_raw i c tail hcsp hce, startsOkNl_of_no_nl _ _ hnlb, Bool.and_self]
+  have hlstrip := lstrip_indent i _ c tail rfl hcs
+  have hblank : isBlank (spaces i ++ c :: tail) = false := by
+    cases hb : isBlank (spaces i ++ c :: tail) with
+    | false => rfl
+    | true =>
+      rw [isBlank_iff] at hb
+      have := hb c (by simp)
+      rw [hcs] at this; cases this
+  have hmem : ∀ d ∈ lineEsc, c ≠ d := fun d hd e => hce (e ▸ hd)
+  have e4 : ∀ ol ul, listItemMatch tab ol ul (spaces i ++ c :: tail) = none := by
+    intro ol ul
+    have h0 : countPrefix ' ' (some (tab - 1)) (spaces i ++ c :: tail) = i := countPrefix_spaces i _ c tail (by omega) hcsp
+    have hd : (spaces i ++ c :: tail).drop i = c :: tail := by
+      rw [List.drop_left' (by simp [spaces])]
+    have hu : ulMarker (c :: tail) = none := by
+      simp [ulMarker, hmem '*' (by decide), hmem '+' (by decide), hmem '-' (by decide)]
+    simp only [listItemMatch, h0, hd, hX.ol, hu]
+    cases ol <;> cases ul <;> rfl
+  generalize hb : spaces i ++ c :: tail = b at *
+  have h1 : b.isEmpty = false := by rw [← hb]; cases i <;> simp [spaces, List.replicate_succ]
+  have h2 : startsWith b ['\n'] = false := by
+    rw [← hb]; cases i <;> simp [spaces, List.replicate_succ, hcnl]
+  have h3 : startsWith b (spaces tab) = false := by
+    rw [← hb]; exact startsWith_spaces_false _ tab c _ hi hcsp
+  unfold dispatch
+  simp only [h1, h2, h3, Bool.or_self, Bool.false_eq_true, if_false, Bool.false_and, e4, Option.isSome_none,
+    hashSearch_eq_none (esc := lineEsc) (by decide) _ hl, setextMatch_line b hnlb,
+    hrSearch_eq_none (esc := lineEsc) (by decide) (by decide) (by decide) _ hl,
+    quoteSearch_eq_none (esc := lineEsc) (by decide) _ hl, refSearch_eq_none (esc := lineEsc) (by decide) _ hl]
+  simp [paraP, hblank, hlstrip, isstate, mkText, Node.el]
+
+
+/-- **A Setext heading**: a one-line content `X`, indented by less than a tab, over a line of `=` or `-` -/
+theorem produces_setext_raw (tab i : Nat) (hi : i < tab) (X : Str) (hX : RawOK X) (lv k : Nat)
+    (hlv : lv = 1 ∨ lv = 2) :
+    Produces tab (spaces i ++ X ++ '\n' :: List.replicate (k + 1) (if lv = 1 then '=' else '-'))
+      { tag := .name ('h' :: natToDec lv), text := some X } := by
+  intro pb refs parent rest
+  obtain ⟨c, tail, he, hcs, hce⟩ := hX.shape
+  have hch : c ≠ '#' := fun e => hce (by rw [e]; decide)
+  have hnl := hX.nl
+  have hlast := hX.last
+  have hcsp : c ≠ ' ' := by intro e; subst e; exact absurd hcs (by decide)
+  have hcnl : c ≠ '\n' := by intro e; subst e; exact absurd hcs (by decide)
+  generalize hu : (if lv = 1 then '=' else '-') = ch
+  have hch2 : ch = '=' ∨ ch = '-' := by rw [← hu]; split <;> simp
+  have hl1nl : '\n' ∉ spaces i ++ X := by
+    intro hm; rcases List.mem_append.1 hm with hm | hm
+    · exact absurd (List.eq_of_mem_replicate hm) (by decide)
+    · exact hnl hm
+  have hunl : '\n' ∉ List.replicate (k + 1) ch := by
+    intro hm; have := List.eq_of_mem_replicate hm
+    rcases hch2 with h | h <;> rw [h] at this <;> exact absurd this (by decide)
+  have hlines : lines (spaces i ++ X ++ '\n' :: List.replicate (k + 1) ch) =
+      [spaces i ++ X, List.replicate (k + 1) ch] := by
+    unfold lines
+    rw [splitC_append_nl _ _ (notNl_of_not_mem hl1nl), splitC_noNl _ (notNl_of_not_mem hunl)]
+  have h4 : hashSearch (spaces i ++ X ++ '\n' :: List.replicate (k + 1) ch) = none := by
+    have hh1 : (spaces i ++ X ++ '\n' :: List.replicate (k + 1) ch).head? ≠ some '#' := by
+      rw [he, List.append_assoc, List.cons_append, head?_spaces_cons]; split <;> simp [hch]
+    have hh2 : (List.replicate (k + 1) ch).head? ≠ some '#' := by
+      rcases hch2 with h | h <;> simp [List.replicate_succ, h]
+    have s1 := hashSearchNl_skip (spaces i ++ X) ('\n' :: List.replicate (k + 1) ch) 0
+      (notNl_of_not_mem hl1nl)
+    have s2 := hashSearchNl_skip (List.replicate (k + 1) ch) [] (0 + (spaces i ++ X).length + 1)
+      (notNl_of_not_mem hunl)
+    simp only [List.append_nil] at s2
+    simp only [hashSearch, hashAt_none _ hh1, s1, hashSearchNl, if_true, hashAt_none _ hh2, s2]
+  have h5 : setextMatch (spaces i ++ X ++ '\n' :: List.replicate (k + 1) ch) = true := by
+    rw [setextMatch_eq]
+    simp only [secondLine, hlines, List.getElem?_cons_succ, List.getElem?_cons_zero, setextLine2]
+    have hp : (fun c => decide (c = '=') || decide (c = '-')) ch = true := by rcases hch2 with h | h <;> simp [h]
+    rw [spanLen_replicate _ _ _ hp]
+    simp
+  generalize hb : spaces i ++ X ++ '\n' :: List.replicate (k + 1) ch = b at *
+  have hb' : b = spaces i ++ c :: (tail ++ '\n' :: List.replicate (k + 1) ch) := by rw [← hb, he]; simp
+  have h1 : b.isEmpty = false := by rw [hb']; cases i <;> simp [spaces, List.replicate_succ]
+  have h2 : startsWith b ['\n'] = false := by
+    rw [hb']; cases i <;> simp [spaces, List.replicate_succ, hcnl]
+  have h3 : startsWith b (spaces tab) = false := by
+    rw [hb']; exact startsWith_spaces_false _ tab c _ hi hcsp
+  have hstrip : strip (spaces i ++ X) = X := by
+    have := strip_append_of_blank (a := spaces i) (b := []) (by simp [isBlank, spaces]) (by simp [isBlank]) X
+    simp only [List.append_nil] at this
+    rw [this]
+    exact strip_eq_self (fun d hd => by rw [he] at hd; cases hd; exact hcs) hlast
+  have hlevel : (if startsWith (List.replicate (k + 1) ch) ['='] = true then 1 else 2) = lv := by
+    rcases hlv with h | h
+    · subst h; simp only [if_true] at hu; subst hu; simp [List.replicate_succ]
+    · subst h; simp only [show (2 : Nat) ≠ 1 by decide, if_false] at hu; subst hu; simp [List.replicate_succ]
+  unfold dispatch
+  simp only [h1, h2, h3, h4, h5, Bool.or_self, Bool.false_eq_true, if_false, Bool.false_and, if_true]
+  simp [setextP, hlines, hstrip, hlevel, hTag]
+
+/-- **An ATX heading**: one to six `#`, a space, a one-line content `X`, a closing sequence -/
+theorem produces_atx_raw (tab : Nat) (htab : 0 < tab) (X : Str) (hX : RawOK X) (lv : Nat) (h1 : 1 ≤ lv)
+    (h6 : lv ≤ 6) (Y : Str) (hY : Y = [] ∨ ∃ m, Y = ' ' :: List.replicate m '#') :
+    Produces tab (List.replicate lv '#' ++ ' ' :: (X ++ Y)) { tag := .name ('h' :: natToDec lv), text := some X } := by
+  intro pb refs parent rest
+  obtain ⟨c, tail, he, hcs, hce⟩ := hX.shape
+  have hlast := hX.last
+  obtain ⟨ys, hys, hclose⟩ : ∃ ys, (ys = [] ∨ ys = [' ']) ∧ ∀ f, hashHeader (f + 2) Y = some (ys, Y.length) := by
+    rcases hY with rfl | ⟨m, rfl⟩
+    · exact ⟨[], Or.inl rfl, fun f => hashHeader_closing_nil (f + 1)⟩
+    · exact ⟨[' '], Or.inr rfl, fun f => by rw [hashHeader_closing]; simp⟩
+  generalize hb : List.replicate lv '#' ++ ' ' :: (X ++ Y) = b
+  have hlen : b.length = lv + 1 + X.length + Y.length := by rw [← hb]; simp; omega
+  have hdrop : b.drop lv = ' ' :: (X ++ Y) := by
+    rw [← hb, List.drop_left' (by simp)]
+  have hcount : countPrefix '#' (some 6) b = lv := by rw [← hb]; exact countHash_level lv 6 h6 _
+  obtain ⟨f0, hf0⟩ : ∃ f0, b.length + 1 = ((f0 + 2) + X.length) + 1 := ⟨b.length - X.length - 2, by omega⟩
+  have hhdr : hashHeader (b.length + 1) (b.drop lv) = some (' ' :: (X ++ ys), Y.length + X.length + 1) := by
+    rw [hdrop, hf0]
+    have hw := hX.walk (f0 + 2) Y ys Y.length (hclose f0)
+    have hcl : hashClose (' ' :: (X ++ Y)) = none := hashClose_none_of_head _ _ (by decide) (by decide)
+    simp [hashHeader, hcl, hw]
+  have hat : hashAt b = some (lv, ' ' :: (X ++ ys), lv + (Y.length + X.length + 1)) := by
+    unfold hashAt
+    rw [hcount]
+    apply firstDown_top _ 1 lv _ h1
+    simp only [hhdr]
+  have hen : lv + (Y.length + X.length + 1) = b.length := by rw [hlen]; omega
+  have hsearch : hashSearch b = some (0, b.length, lv, ' ' :: (X ++ ys)) := by
+    simp only [hashSearch, hat, hen]
+  have hstrip : strip (' ' :: (X ++ ys)) = X := by
+    have hbl : isBlank ys = true := by rcases hys with rfl | rfl <;> decide
+    have := strip_append_of_blank (a := [' ']) (b := ys) (by decide) hbl X
+    simp only [List.cons_append, List.nil_append] at this
+    rw [this]
+    exact strip_eq_self (fun d hd => by rw [he] at hd; cases hd; exact hcs) hlast
+  have hb1 : ∃ r, b = '#' :: r := by
+    obtain ⟨l', rfl⟩ : ∃ l', lv = l' + 1 := ⟨lv - 1, by omega⟩
+    exact ⟨List.replicate l' '#' ++ ' ' :: (X ++ Y), by rw [← hb]; simp [List.replicate_succ]⟩
+  obtain ⟨r0, hr0⟩ := hb1
+  have g1 : b.isEmpty = false := by rw [hr0]; rfl
+  have g2 : startsWith b ['\n'] = false := by rw [hr0]; simp
+  have g3 : startsWith b (spaces tab) = false := by
+    obtain ⟨tb, rfl⟩ : ∃ tb, tab = tb + 1 := ⟨tab - 1, by omega⟩
+    rw [hr0]; simp [spaces, List.replicate_succ]
+  unfold dispatch
+  simp only [g1, g2, g3, Bool.or_self, Bool.false_eq_true, if_false, Bool.false_and, hsearch]
+  simp [hashP, hstrip, hTag]
+
+
+/-! #### the lazy header group of `HashHeaderProcessor.RE` walks over such content -/
+
+theorem hashHeader_succ : ∀ (f : Nat) (s : Str) (r : Str × Nat), hashHeader f s = some r → hashHeader (f + 1) s = some r := by
+  intro f
+  induction f with
+  | zero => intro s r h; simp [hashHeader] at h
+  | succ f ih =>
+    intro s r h
+    unfold hashHeader at h ⊢
+    cases hc : hashClose s with
+    | some k => simp only [hc] at h ⊢; exact h
+    | none =>
+      simp only [hc] at h ⊢
+      cases s with
+      | nil => exact h
+      | cons c t =>
+        simp only at h ⊢
+        by_cases hb : c = '\\'
+        · simp only [hb, if_true] at h ⊢
+          cases t with
+          | nil => exact h
+          | cons d t' =>
+            simp only at h ⊢
+            by_cases hd : d = '\n'
+            · simp [hd] at h
+            · simp only [hd, if_false] at h ⊢
+              cases hh : hashHeader f t' with
+              | none => simp [hh] at h
+              | some p => rw [hh] at h; rw [ih t' p hh]; exact h
+        · simp only [hb, if_false] at h ⊢
+          cases hh : hashHeader f t with
+          | none => simp [hh] at h
+          | some p => rw [hh] at h; rw [ih t p hh]; exact h
+
+theorem hashHeader_mono (k : Nat) {f : Nat} {s : Str} {r : Str × Nat} (h : hashHeader f s = some r) :
+    hashHeader (f + k) s = some r := by
+  induction k with
+  | zero => exact h
+  | succ k ih => exact hashHeader_succ _ _ _ ih
+
+theorem hashClose_none_of_last (X Y : Str) (hnl : '\n' ∉ X) (z : Char) (hz : X.getLast? = some z) (hz1 : z ≠ '#') :
+    hashClose (X ++ Y) = none := by
+  have hnotall : X.all (· = '#') = false := by
+    cases h : X.all (· = '#') with
+    | false => rfl
+    | true =>
+      have := List.all_eq_true.1 h z (List.mem_of_getLast? hz)
+      simp only [decide_eq_true_eq] at this
+      exact absurd this hz1
+  have hk : countPrefix '#' none (X ++ Y) = countPrefix '#' none X := by
+    rw [countPrefix_none, countPrefix_none]; exact spanLen_append_of_not_all _ _ _ hnotall
+  have hlt : countPrefix '#' none X < X.length := by
+    rw [countPrefix_none]
+    have h1 := spanLen_le (· = '#') X
+    have h2 : spanLen (· = '#') X ≠ X.length := by
+      intro e; rw [spanLen_eq_length_iff] at e; rw [e] at hnotall; cases hnotall
+    omega
+  unfold hashClose
+  simp only [hk]
+  rw [List.drop_append_of_le_length (by omega)]
+  cases hd : X.drop (countPrefix '#' none X) with
+  | nil =>
+    have := congrArg List.length hd
+    simp at this; omega
+  | cons c t =>
+    have hcm : c ∈ X := List.mem_of_mem_drop (by rw [hd]; simp)
+    have hc : c ≠ '\n' := fun e => hnl (e ▸ hcm)
+    simp [hc]
+
+/-- the header group walks over any text without line feed whose last character is neither `#` nor a backslash -/
+theorem hashHeader_walk : ∀ (n : Nat) (X : Str), X.length ≤ n → X ≠ [] → '\n' ∉ X →
+    (∀ z, X.getLast? = some z → z ≠ '#' ∧ z ≠ '\\') →
+    ∀ (f : Nat) (Y h : Str) (m : Nat), hashHeader f Y = some (h, m) →
+      hashHeader (f + X.length) (X ++ Y) = some (X ++ h, m + X.length) := by
+  intro n
+  induction n with
+  | zero => intro X hl hne; cases X <;> simp_all
+  | succ n ih =>
+    intro X hl hne hnl hlast f Y h m hY
+    obtain ⟨z, hz⟩ : ∃ z, X.getLast? = some z := by
+      cases hx : X.getLast? with
+      | none => exact absurd (List.getLast?_eq_none_iff.1 hx) hne
+      | some z => exact ⟨z, rfl⟩
+    have hcl := hashClose_none_of_last X Y hnl z hz (hlast z hz).1
+    cases X with
+    | nil => exact absurd rfl hne
+    | cons c X' =>
+      have hcnl : c ≠ '\n' := fun e => hnl (by simp [e])
+      rw [show f + (c :: X').length = (f + X'.length) + 1 by simp; omega]
+      simp only [List.cons_append] at hcl ⊢
+      unfold hashHeader
+      simp only [hcl]
+      by_cases hb : c = '\\'
+      · subst hb
+        simp only [if_true]
+        cases X' with
+        | nil => exact absurd rfl (hlast '\\' (by simp)).2
+        | cons d X'' =>
+          have hdnl : d ≠ '\n' := fun e => hnl (by simp [e])
+          simp only [List.cons_append, hdnl, if_false]
+          by_cases hx : X'' = []
+          · subst hx
+            simp only [List.nil_append, List.length_cons, List.length_nil]
+            rw [hashHeader_mono 1 hY]
+          · have hl' : X''.length ≤ n := by simp at hl; omega
+            have hlast' : ∀ z, X''.getLast? = some z → z ≠ '#' ∧ z ≠ '\\' := by
+              intro z hz'
+              apply hlast z
+              cases X'' with
+              | nil => exact absurd rfl hx
+              | cons e X3 => simpa [List.getLast?_cons_cons] using hz'
+            have := ih X'' hl' hx (fun hm => hnl (by simp [hm])) hlast' (f + 1) Y h m (hashHeader_mono 1 hY)
+            rw [show f + (d :: X'').length = f + 1 + X''.length by simp; omega, this]
+            simp; omega
+      · simp only [hb, if_false]
+        by_cases hx : X' = []
+        · subst hx
+          simp only [List.nil_append, List.length_nil, Nat.add_zero, hY]
+          simp
+        · have hl' : X'.length ≤ n := by simp at hl; omega
+          have hlast' : ∀ z, X'.getLast? = some z → z ≠ '#' ∧ z ≠ '\\' := by
+            intro z hz'
+            apply hlast z
+            cases X' with
+            | nil => exact absurd rfl hx
+            | cons e X3 => simpa [List.getLast?_cons_cons] using hz'
+          rw [ih X' hl' hx (fun hm => hnl (by simp [hm])) hlast' f Y h m hY]
+          simp; omega
+
+
+/-- the header group walks over `X` -/
+def Walk (X : Str) : Prop := ∀ (f : Nat) (Y h : Str) (m : Nat), hashHeader f Y = some (h, m) →
+  hashHeader (f + X.length) (X ++ Y) = some (X ++ h, m + X.length)
+
+theorem walk_nil : Walk [] := fun f Y h m hY => by simpa using hY
+
+theorem walk_append {A B : Str} (hA : Walk A) (hB : Walk B) : Walk (A ++ B) := by
+  intro f Y h m hY
+  have h1 := hB f Y h m hY
+  have h2 := hA (f + B.length) (B ++ Y) (B ++ h) (m + B.length) h1
+  rw [List.append_assoc, List.append_assoc, List.length_append,
+    show f + (A.length + B.length) = f + B.length + A.length by omega,
+    show m + (A.length + B.length) = m + B.length + A.length by omega]
+  exact h2
+
+theorem walk_escAll {esc : List Char} (hE : EscOK esc) (t : Str) (hnl : '\n' ∉ t) : Walk (escAll esc t) := by
+  intro f Y h m hY
+  have hle := length_le_escAll esc t
+  have := hashHeader_escAll hE t hnl Y f
+  rw [hY] at this
+  simp only [Option.map_some] at this
+  have := hashHeader_mono ((escAll esc t).length - t.length) this
+  rw [show f + t.length + ((escAll esc t).length - t.length) = f + (escAll esc t).length by omega] at this
+  exact this
+
+theorem walk_spanSrc (k : Nat) (b : Str) (hnl : '\n' ∉ padded b) : Walk (spanSrc (k + 1) b) := by
+  have hlast : (spanSrc (k + 1) b).getLast? = some '`' := by
+    have : spanSrc (k + 1) b = (ticks (k + 1) ++ (padded b ++ ticks k)) ++ ['`'] := by
+      simp [spanSrc, ticks, List.replicate_succ']
+    rw [this, List.getLast?_append]; rfl
+  apply hashHeader_walk _ _ (Nat.le_refl _)
+  · simp [spanSrc, ticks, List.replicate_succ]
+  · intro hm
+    simp only [spanSrc, ticks, List.mem_append] at hm
+    rcases hm with hm | hm | hm
+    · exact absurd (List.eq_of_mem_replicate hm) (by decide)
+    · exact hnl hm
+    · exact absurd (List.eq_of_mem_replicate hm) (by decide)
+  · intro z hz
+    rw [hlast] at hz; cases hz; exact ⟨by decide, by decide⟩
+
+theorem walk_rawSegs {esc : List Char} (hE : EscOK esc) (segs : List SpanSeg)
+    (h : ∀ s ∈ segs, (∃ k, s.n = k + 1) ∧ '\n' ∉ padded s.b ∧ '\n' ∉ s.t) : Walk (rawSegs esc segs) := by
+  induction segs with
+  | nil => exact walk_nil
+  | cons s r ih =>
+    obtain ⟨⟨k, hk⟩, h1, h2⟩ := h s List.mem_cons_self
+    simp only [rawSegs]
+    rw [hk]
+    exact walk_append (walk_spanSrc k s.b h1)
+      (walk_append (walk_escAll hE s.t h2) (ih (fun x hx => h x (List.mem_cons_of_mem _ hx))))
+
+/-- after the leading digits of escaped text (followed by something that starts with neither a digit nor a dot) there
+    is no dot -/
+theorem no_dot_after_digits {esc : List Char} (hdot : '.' ∈ esc) (t Z : Str)
+    (hZ : ∀ c, Z.head? = some c → isDecimal c = false ∧ c ≠ '.') :
+    (escAll esc t ++ Z)[spanLen isDecimal (escAll esc t ++ Z)]? ≠ some '.' := by
+  induction t with
+  | nil =>
+    simp only [escAll, List.nil_append]
+    cases Z with
+    | nil => simp
+    | cons c Z' =>
+      obtain ⟨h1, h2⟩ := hZ c rfl
+      simp [spanLen, h1, h2]
+  | cons c r ih =>
+    by_cases hc : c ∈ esc
+    · rw [escAll_cons_mem hc]
+      simp [spanLen, show isDecimal '\\' = false by decide]
+    · rw [escAll_cons_not_mem hc]
+      have hcd : c ≠ '.' := fun e => hc (e ▸ hdot)
+      by_cases hd : isDecimal c = true
+      · simp only [List.cons_append, spanLen, hd, if_true, List.getElem?_cons_succ]
+        exact ih
+      · simp [spanLen, hd, hcd]
+
+theorem olMarker_none_of (s : Str) (h : s[spanLen isDecimal s]? ≠ some '.') : olMarker s = none := by
+  unfold olMarker
+  have : (s[spanLen isDecimal s]? == some '.') = false := by simpa using h
+  simp [this]
+
+
+/-- the plain text at the end of the line -/
+def lastText (t0 : Str) (segs : List SpanSeg) : Str := (segs.getLast?.map (·.t)).getD t0
+
+/-- what the block stage needs of a line of escaped text and code spans -/
+structure LineOK (t0 : Str) (segs : List SpanSeg) : Prop where
+  nl0 : '\n' ∉ t0
+  nls : ∀ s ∈ segs, (∃ k, s.n = k + 1) ∧ '\n' ∉ padded s.b ∧ '\n' ∉ s.t
+  ne : t0 ≠ [] ∨ segs ≠ []
+  first : t0 ≠ [] → startsVisible t0 = true
+  lastv : ∀ z, (lastText t0 segs).getLast? = some z → isSpace z = false
+
+theorem lastText_cons (t0 : Str) (s : SpanSeg) (r : List SpanSeg) : lastText t0 (s :: r) = lastText s.t r := by
+  cases r with
+  | nil => rfl
+  | cons a b =>
+    simp only [lastText, List.getLast?_cons_cons]
+    cases h : (a :: b).getLast? with
+    | none => exact absurd (List.getLast?_eq_none_iff.1 h) (by simp)
+    | some x => rfl
+
+theorem mem_rawSegs {esc : List Char} {segs : List SpanSeg} {c : Char} (h : c ∈ rawSegs esc segs) :
+    c = '`' ∨ ∃ s ∈ segs, c ∈ padded s.b ∨ c ∈ escAll esc s.t := by
+  induction segs with
+  | nil => simp [rawSegs] at h
+  | cons s r ih =>
+    simp only [rawSegs, spanSrc, ticks, List.mem_append] at h
+    rcases h with (h | h | h) | h | h
+    · exact Or.inl (List.eq_of_mem_replicate h)
+    · exact Or.inr ⟨s, List.mem_cons_self, Or.inl h⟩
+    · exact Or.inl (List.eq_of_mem_replicate h)
+    · exact Or.inr ⟨s, List.mem_cons_self, Or.inr h⟩
+    · rcases ih h with h | ⟨x, hx, hc⟩
+      · exact Or.inl h
+      · exact Or.inr ⟨x, List.mem_cons_of_mem _ hx, hc⟩
+
+theorem spanSrc_last (k : Nat) (b : Str) : (spanSrc (k + 1) b).getLast? = some '`' := by
+  have : spanSrc (k + 1) b = (ticks (k + 1) ++ (padded b ++ ticks k)) ++ ['`'] := by
+    simp [spanSrc, ticks, List.replicate_succ']
+  rw [this, List.getLast?_append]; rfl
+
+theorem raw_last (esc : List Char) (segs : List SpanSeg) :
+    ∀ (t0 : Str), (∀ s ∈ segs, ∃ k, s.n = k + 1) →
+      (∀ z, (lastText t0 segs).getLast? = some z → isSpace z = false) →
+      ∀ d, (escAll esc t0 ++ rawSegs esc segs).getLast? = some d → isSpace d = false := by
+  induction segs with
+  | nil =>
+    intro t0 _ hl d hd
+    simp only [rawSegs, List.append_nil] at hd
+    cases t0 with
+    | nil => simp [escAll] at hd
+    | cons c r =>
+      rw [getLast_escAll esc (c :: r) (by simp)] at hd
+      exact hl d (by simpa [lastText] using hd)
+  | cons s r ih =>
+    intro t0 hn hl d hd
+    obtain ⟨k, hk⟩ := hn s List.mem_cons_self
+    have hsne : spanSrc s.n s.b ≠ [] := by rw [hk]; simp [spanSrc, ticks, List.replicate_succ]
+    simp only [rawSegs] at hd
+    rw [List.getLast?_append] at hd
+    have hT : (spanSrc s.n s.b ++ (escAll esc s.t ++ rawSegs esc r)).getLast? ≠ none := by
+      intro e; rw [List.getLast?_eq_none_iff] at e
+      exact hsne (List.append_eq_nil_iff.1 e).1
+    cases hx : (spanSrc s.n s.b ++ (escAll esc s.t ++ rawSegs esc r)).getLast? with
+    | none => exact absurd hx hT
+    | some x =>
+      rw [hx] at hd
+      simp only [Option.some_or, Option.some.injEq] at hd
+      subst hd
+      rw [List.getLast?_append] at hx
+      cases hy : (escAll esc s.t ++ rawSegs esc r).getLast? with
+      | none =>
+        rw [hy, hk, spanSrc_last] at hx
+        simp at hx; subst hx; decide
+      | some y =>
+        rw [hy] at hx
+        simp only [Option.some_or, Option.some.injEq] at hx
+        subst hx
+        have hl' : ∀ z, (lastText s.t r).getLast? = some z → isSpace z = false := by
+          intro z hz
+          apply hl z
+          rw [lastText_cons]; exact hz
+        exact ih s.t (fun x hx => hn x (List.mem_cons_of_mem _ hx)) hl' y hy
+
+theorem lineEsc_sub {esc : List Char} (hE : EscOK esc) {c : Char} (h : c ∉ esc) : c ∉ lineEsc := by
+  intro hm
+  simp only [lineEsc, List.mem_cons, List.not_mem_nil, or_false] at hm
+  rcases hm with rfl | rfl | rfl | rfl | rfl | rfl | rfl
+  · exact h hE.hash
+  · exact h hE.dash
+  · exact h hE.under
+  · exact h hE.star
+  · exact h hE.plus
+  · exact h hE.gt
+  · exact h hE.lbr
+
+/-- such a line is content the block processors handle as plain content -/
+theorem rawOK_line {esc : List Char} (hE : EscOK esc) (t0 : Str) (segs : List SpanSeg) (h : LineOK t0 segs) :
+    RawOK (escAll esc t0 ++ rawSegs esc segs) where
+  shape := by
+    cases t0 with
+    | nil =>
+      rcases h.ne with h' | h'
+      · exact absurd rfl h'
+      · cases segs with
+        | nil => exact absurd rfl h'
+        | cons s r =>
+          obtain ⟨⟨k, hk⟩, _⟩ := h.nls s List.mem_cons_self
+          refine ⟨'`', ticks k ++ (padded s.b ++ ticks (k + 1)) ++ (escAll esc s.t ++ rawSegs esc r), ?_,
+            by decide, by decide⟩
+          simp [escAll, rawSegs, spanSrc, hk, ticks, List.replicate_succ, List.append_assoc]
+    | cons c r =>
+      have hv := h.first (by simp)
+      have hcs : isSpace c = false := by simpa [startsVisible] using hv
+      by_cases hc : c ∈ esc
+      · refine ⟨'\\', c :: escAll esc r ++ rawSegs esc segs, by rw [escAll_cons_mem hc]; rfl, by decide, by decide⟩
+      · exact ⟨c, escAll esc r ++ rawSegs esc segs, by rw [escAll_cons_not_mem hc]; rfl, hcs, lineEsc_sub hE hc⟩
+  nl := by
+    intro hm
+    rcases List.mem_append.1 hm with hm | hm
+    · rcases mem_escAll hm with e | hm
+      · exact absurd e (by decide)
+      · exact h.nl0 hm
+    · rcases mem_rawSegs hm with e | ⟨s, hs, hc | hc⟩
+      · exact absurd e (by decide)
+      · exact (h.nls s hs).2.1 hc
+      · rcases mem_escAll hc with e | hc
+        · exact absurd e (by decide)
+        · exact (h.nls s hs).2.2 hc
+  last := raw_last esc segs t0 (fun s hs => (h.nls s hs).1) h.lastv
+  ol := by
+    apply olMarker_none_of
+    apply no_dot_after_digits hE.dot
+    intro c hc
+    cases segs with
+    | nil => simp [rawSegs] at hc
+    | cons s r =>
+      obtain ⟨⟨k, hk⟩, _⟩ := h.nls s List.mem_cons_self
+      simp [rawSegs, spanSrc, hk, ticks, List.replicate_succ] at hc
+      subst hc; exact ⟨by decide, by decide⟩
+  walk := walk_append (walk_escAll hE t0 h.nl0) (walk_rawSegs hE segs h.nls)
+
+/-! ### 12. a paragraph or heading with code spans as a piece -/
+
+/-- a chunk without empty line that produces one element -/
+def chunkB (g : List Str) (node : Node) : BPiece := ⟨g, [joinLines g], false, node, node⟩
+
+theorem chunkB_ok (tab : Nat) (g : List Str) (node : Node) (hne : g ≠ [])
+    (hnel : noEmptyLineFrom true (joinLines g) = true) (hprod : Produces tab (joinLines g) node)
+    (hlist : isListTag node = false) (hpre : preCode node = none) : BPieceOK tab (chunkB g node) where
+  ne := hne
+  split := fun Y => by simpa [chunkB] using splitAux_chunk true (joinLines g) Y hnel
+  prod := fun refs parent rest f _ _ => ⟨1, by
+    simp only [chunkB, List.singleton_append, parseBlocks_step, hprod _ refs parent rest]⟩
+  clean := fun _ => ⟨hlist, hpre⟩
+  last := fun pb refs parent => by
+    apply dispatch_empty_block
+    intro sib hs
+    rw [last_append] at hs
+    cases hs
+    exact hpre
+
+/-- a `p`/`h1`–`h6` element with code spans, printed as the lines `g` -/
+def spanPiece (esc : List Char) (g : List Str) (tag t0 : Str) (segs : List SpanSeg) : Piece2 :=
+  ⟨chunkB g (spanTxtSrc esc tag t0 segs), spanTxtElem esc tag t0 segs, spanTxtElem esc tag t0 segs⟩
+
+theorem spanTxtSrc_clean (esc : List Char) (tag : Str) (htag : textTags.contains tag = true) (t0 : Str)
+    (segs : List SpanSeg) :
+    isListTag (spanTxtSrc esc tag t0 segs) = false ∧ preCode (spanTxtSrc esc tag t0 segs) = none := by
+  have hmem : tag ∈ "hr".toList :: textTags := List.mem_cons_of_mem _ (List.contains_iff_mem.1 htag)
+  have key : ∀ tag ∈ "hr".toList :: textTags, tag ≠ "ul".toList ∧ tag ≠ "ol".toList ∧ tag ≠ "pre".toList := by decide
+  obtain ⟨a1, a2, a3⟩ := key _ hmem
+  have b1 : tag ≠ ['u', 'l'] := a1
+  have b2 : tag ≠ ['o', 'l'] := a2
+  have b3 : tag ≠ ['p', 'r', 'e'] := a3
+  constructor
+  · simp [spanTxtSrc, isListTag, Node.isTag, b1, b2]
+  · simp [spanTxtSrc, preCode, Node.isTag, b3]
+
+theorem phChar_generated : ∀ c ∈ Generated.escapedChars, phChar c = false := by decide
+
+theorem spanPiece_ok (g : List Str) (tag t0 : Str) (segs : List SpanSeg)
+    (hok : SpanTxtOK Generated.escapedChars tag t0 segs) (hne : g ≠ [])
+    (hnel : noEmptyLineFrom true (joinLines g) = true)
+    (hprod : Produces 4 (joinLines g) (spanTxtSrc Generated.escapedChars tag t0 segs))
+    (hsafe : ∀ l ∈ g, lineSafe l = true ∧ '<' ∉ l ∧ refsClosed l = true)
+    (hvis : ∃ c ∈ joinLines g, isSpace c = false) :
+    Piece2OK {} (spanPiece Generated.escapedChars g tag t0 segs) where
+  bok := chunkB_ok 4 g _ hne hnel hprod (spanTxtSrc_clean _ tag hok.htag t0 segs).1
+    (spanTxtSrc_clean _ tag hok.htag t0 segs).2
+  safe := hsafe
+  vis := hvis
+  src := rfl
+  srcLast := rfl
+  eok := fun refs => spanTxtElem_ok { esc := Generated.escapedChars, refs := refs } escOK_generated
+    phChar_generated tag t0 segs hok
+  eokLast := fun refs => spanTxtElem_ok { esc := Generated.escapedChars, refs := refs } escOK_generated
+    phChar_generated tag t0 segs hok
+  out := rfl
+
+/-! ### 13. the printed form of content with code spans -/
+
+abbrev ESC : List Char := Generated.escapedChars
+
+/-- the plain text before the first span, and for each span its body and the plain text after it -/
+def splitSpans : List DocSpec.Inline → Str × List (Str × Str)
+  | [] => ([], [])
+  | .text w :: r => (w ++ (splitSpans r).1, (splitSpans r).2)
+  | .esc c :: r => (c :: (splitSpans r).1, (splitSpans r).2)
+  | .code b :: r => ([], (b, (splitSpans r).1) :: (splitSpans r).2)
+  | _ :: r => splitSpans r
+
+/-- the items of a well-formed run of words, escapes and code spans -/
+def spanItemsOK : List DocSpec.Inline → Bool
+  | [] => true
+  | .text w :: r => wfWords w && spanItemsOK r
+  | .esc c :: r => ESC.contains c && spanItemsOK r
+  | .code b :: r => wfCodeSpan b && noLt b && spanItemsOK r
+  | _ :: _ => false
+
+theorem spanItemsOK_of_wf (c : List DocSpec.Inline) (brOk : Bool) (hp : c.all isSpanItem = true)
+    (hw : wfInlineList false .none brOk c = true) : spanItemsOK c = true := by
+  induction c with
+  | nil => rfl
+  | cons x r ih =>
+    simp only [List.all_cons, Bool.and_eq_true] at hp
+    simp only [wfInlineList, Bool.and_eq_true] at hw
+    have ihr := ih hp.2 hw.2
+    cases x with
+    | text w => simp only [wfInline] at hw; simp [spanItemsOK, hw.1, ihr]
+    | esc ch => simp only [wfInline] at hw; simp [spanItemsOK, List.contains_iff_mem.1 hw.1, ihr]
+    | code b => simp only [wfInline] at hw; simp only [isSpanItem] at hp; simp [spanItemsOK, hw.1, hp.1, ihr]
+    | em _ => simp [isSpanItem] at hp
+    | strong _ => simp [isSpanItem] at hp
+    | link _ _ _ => simp [isSpanItem] at hp
+    | image _ _ _ => simp [isSpanItem] at hp
+    | autolink _ => simp [isSpanItem] at hp
+    | br => simp [isSpanItem] at hp
+
+/-- the fence the printer may choose for the body `b` -/
+def fenceOK (n : Nat) (b : Str) : Prop := longestTickRun b + 1 ≤ n ∧ n ≤ 3
+
+theorem escAll_esc_cons (ch : Char) (h : ch ∈ ESC) (X : Str) : escAll ESC (ch :: X) = '\\' :: ch :: escAll ESC X :=
+  escAll_cons_mem h X
+
+/-- **the printed form**: escaped plain text and spans, with a fence the body does not contain -/
+theorem printInlines_span (c : List DocSpec.Inline) (h : spanItemsOK c = true) :
+    ∀ (pd : Option Char) (prevB endB : Bool) (st : PSt), ∃ (segs : List SpanSeg) (st' : PSt),
+      printInlines pd prevB endB c st = (escAll ESC (splitSpans c).1 ++ rawSegs ESC segs, st') ∧
+      st'.defs = st.defs ∧ segs.map (fun s => (s.b, s.t)) = (splitSpans c).2 ∧
+      ∀ s ∈ segs, fenceOK s.n s.b := by
+  induction c with
+  | nil => intro pd prevB endB st; exact ⟨[], st, by simp [printInlines, splitSpans, rawSegs, escAll], rfl, rfl, by simp⟩
+  | cons x r ih =>
+    intro pd prevB endB st
+    cases x with
+    | text w =>
+      simp only [spanItemsOK, Bool.and_eq_true, wfWords] at h
+      obtain ⟨segs, st', hp, hd, hm, hf⟩ := ih h.2 pd (afterBoundary prevB w) endB st
+      refine ⟨segs, st', ?_, hd, hm, hf⟩
+      simp only [printInlines, printInline, hp, splitSpans]
+      rw [escAll_words w h.1.1.2]; simp [List.append_assoc]
+    | esc ch =>
+      simp only [spanItemsOK, Bool.and_eq_true] at h
+      obtain ⟨segs, st', hp, hd, hm, hf⟩ := ih h.2 pd (afterBoundary prevB ['\\', ch]) endB st
+      refine ⟨segs, st', ?_, hd, hm, hf⟩
+      simp only [printInlines, printInline, hp, splitSpans]
+      rw [escAll_esc_cons ch (List.contains_iff_mem.1 h.1)]; simp
+    | code b =>
+      simp only [spanItemsOK, Bool.and_eq_true, wfCodeSpan, decide_eq_true_eq] at h
+      have hL : longestTickRun b ≤ 2 := h.1.1.1.2
+      generalize hn : longestTickRun b + 1 + (draw st).1 % (4 - (longestTickRun b + 1)) = n
+      have hnb : fenceOK n b := by
+        have : (draw st).1 % (4 - (longestTickRun b + 1)) < 4 - (longestTickRun b + 1) := Nat.mod_lt _ (by omega)
+        constructor <;> omega
+      obtain ⟨segs, st', hp, hd, hm, hf⟩ := ih h.2 pd
+        (afterBoundary prevB (rep n '`' ++ codePad b ++ b ++ codePad b ++ rep n '`')) endB (draw st).2
+      refine ⟨⟨n, b, (splitSpans r).1⟩ :: segs, st', ?_, by rw [hd, draw_defs], by simp [splitSpans, hm], ?_⟩
+      · simp only [printInlines, printInline, hn, hp, splitSpans]
+        simp [escAll, rawSegs, spanSrc, padded, rep, ticks, List.append_assoc]
+      · intro s hs
+        rcases List.mem_cons.1 hs with rfl | hs
+        · exact hnb
+        · exact hf s hs
+    | em _ => simp [spanItemsOK] at h
+    | strong _ => simp [spanItemsOK] at h
+    | link _ _ _ => simp [spanItemsOK] at h
+    | image _ _ _ => simp [spanItemsOK] at h
+    | autolink _ => simp [spanItemsOK] at h
+    | br => simp [spanItemsOK] at h
+
+
+/-! #### what well-formedness gives about the split content -/
+
+/-- a character of words or an escapable character -/
+def plainCh (c : Char) : Prop := isAlnumSp c = true ∨ c ∈ ESC
+
+theorem plainCh_facts {c : Char} (h : plainCh c) :
+    isPlainChar c = true ∧ c ≠ '\n' ∧ c ≠ '&' ∧ c ≠ '<' ∧ c ≠ Inline.STX := by
+  have key : ∀ c, isPlainChar c = true → c ≠ '&' ∧ c ≠ '<' ∧ c ≠ Inline.STX := by
+    intro c hc
+    simp only [isPlainChar, Bool.and_eq_true, bne_iff_ne, ne_eq] at hc
+    exact ⟨hc.1.1.1.1.2, hc.1.1.1.1.1, hc.1.1.1.2⟩
+  rcases h with h | h
+  · have := alnumSp_facts h
+    exact ⟨this.2.1, this.2.2, key c this.2.1⟩
+  · have := escChar_facts c h
+    exact ⟨this.1, this.2.1, key c this.1⟩
+
+def startsCode : List DocSpec.Inline → Bool
+  | .code _ :: _ => true
+  | _ => false
+
+theorem split_fst_nil (c : List DocSpec.Inline) (h : spanItemsOK c = true) :
+    (splitSpans c).1 = [] ↔ c = [] ∨ startsCode c = true := by
+  cases c with
+  | nil => simp [splitSpans]
+  | cons x r =>
+    cases x with
+    | text w =>
+      simp only [spanItemsOK, Bool.and_eq_true, wfWords, Bool.not_eq_true'] at h
+      have : w ≠ [] := by intro e; subst e; simp at h
+      simp [splitSpans, startsCode, this]
+    | esc ch => simp [splitSpans, startsCode]
+    | code b => simp [splitSpans, startsCode]
+    | em _ => simp [spanItemsOK] at h
+    | strong _ => simp [spanItemsOK] at h
+    | link _ _ _ => simp [spanItemsOK] at h
+    | image _ _ _ => simp [spanItemsOK] at h
+    | autolink _ => simp [spanItemsOK] at h
+    | br => simp [spanItemsOK] at h
+
+theorem split_chars (c : List DocSpec.Inline) (h : spanItemsOK c = true) :
+    (∀ ch ∈ (splitSpans c).1, plainCh ch) ∧
+    ∀ bt ∈ (splitSpans c).2, (∀ ch ∈ bt.2, plainCh ch) ∧ wfCodeSpan bt.1 = true ∧ noLt bt.1 = true := by
+  induction c with
+  | nil => simp [splitSpans]
+  | cons x r ih =>
+    cases x with
+    | text w =>
+      simp only [spanItemsOK, Bool.and_eq_true, wfWords] at h
+      obtain ⟨i1, i2⟩ := ih h.2
+      refine ⟨?_, i2⟩
+      intro ch hch
+      simp only [splitSpans, List.mem_append] at hch
+      rcases hch with hch | hch
+      · exact Or.inl (List.all_eq_true.1 h.1.1.2 ch hch)
+      · exact i1 ch hch
+    | esc e =>
+      simp only [spanItemsOK, Bool.and_eq_true] at h
+      obtain ⟨i1, i2⟩ := ih h.2
+      refine ⟨?_, i2⟩
+      intro ch hch
+      simp only [splitSpans, List.mem_cons] at hch
+      rcases hch with rfl | hch
+      · exact Or.inr (List.contains_iff_mem.1 h.1)
+      · exact i1 ch hch
+    | code b =>
+      simp only [spanItemsOK, Bool.and_eq_true] at h
+      obtain ⟨i1, i2⟩ := ih h.2
+      refine ⟨by simp [splitSpans], ?_⟩
+      intro bt hbt
+      simp only [splitSpans, List.mem_cons] at hbt
+      rcases hbt with rfl | hbt
+      · exact ⟨i1, h.1.1, h.1.2⟩
+      · exact i2 bt hbt
+    | em _ => simp [spanItemsOK] at h
+    | strong _ => simp [spanItemsOK] at h
+    | link _ _ _ => simp [spanItemsOK] at h
+    | image _ _ _ => simp [spanItemsOK] at h
+    | autolink _ => simp [spanItemsOK] at h
+    | br => simp [spanItemsOK] at h
+
+/-- between two spans there is text, and it does not end with a backslash -/
+def gapsOK : List (Str × Str) → Prop
+  | a :: b :: r => a.2 ≠ [] ∧ a.2.getLast? ≠ some '\\' ∧ gapsOK (b :: r)
+  | _ => True
+
+theorem okAdjacents_tail {x : DocSpec.Inline} {r : List DocSpec.Inline} (h : okAdjacents (x :: r) = true) :
+    okAdjacents r = true := by
+  cases r with
+  | nil => rfl
+  | cons y r' => rw [okAdjacents] at h; simp only [Bool.and_eq_true] at h; exact h.2
+
+theorem noBs_tail {x : DocSpec.Inline} {r : List DocSpec.Inline} (h : noBsBeforeCode (x :: r) = true) :
+    noBsBeforeCode r = true := by
+  cases x with
+  | esc c =>
+    cases r with
+    | nil => rfl
+    | cons y r' =>
+      cases y with
+      | code b => simp only [noBsBeforeCode, Bool.and_eq_true] at h; exact h.2
+      | text _ => simpa [noBsBeforeCode] using h
+      | esc _ => simpa [noBsBeforeCode] using h
+      | em _ => simpa [noBsBeforeCode] using h
+      | strong _ => simpa [noBsBeforeCode] using h
+      | link _ _ _ => simpa [noBsBeforeCode] using h
+      | image _ _ _ => simpa [noBsBeforeCode] using h
+      | autolink _ => simpa [noBsBeforeCode] using h
+      | br => simpa [noBsBeforeCode] using h
+  | text _ => simpa [noBsBeforeCode] using h
+  | code _ => simpa [noBsBeforeCode] using h
+  | em _ => simpa [noBsBeforeCode] using h
+  | strong _ => simpa [noBsBeforeCode] using h
+  | link _ _ _ => simpa [noBsBeforeCode] using h
+  | image _ _ _ => simpa [noBsBeforeCode] using h
+  | autolink _ => simpa [noBsBeforeCode] using h
+  | br => simpa [noBsBeforeCode] using h
+
+theorem alnumSp_ne_bs {c : Char} (h : isAlnumSp c = true) : c ≠ '\\' := by
+  intro e; subst e; exact absurd h (by decide)
+
+theorem split_gaps (c : List DocSpec.Inline) (h : spanItemsOK c = true) (ha : okAdjacents c = true)
+    (hb : noBsBeforeCode c = true) :
+    gapsOK (splitSpans c).2 ∧ ((splitSpans c).2 ≠ [] → (splitSpans c).1.getLast? ≠ some '\\') := by
+  induction c with
+  | nil => simp [splitSpans, gapsOK]
+  | cons x r ih =>
+    have har := okAdjacents_tail ha
+    have hbr := noBs_tail hb
+    cases x with
+    | text w =>
+      simp only [spanItemsOK, Bool.and_eq_true, wfWords, Bool.not_eq_true'] at h
+      obtain ⟨i1, i2⟩ := ih h.2 har hbr
+      refine ⟨i1, fun hne => ?_⟩
+      simp only [splitSpans] at hne ⊢
+      rw [List.getLast?_append]
+      cases ht : (splitSpans r).1.getLast? with
+      | none =>
+        simp only [Option.none_or]
+        intro hl
+        exact alnumSp_ne_bs (List.all_eq_true.1 h.1.1.2 _ (List.mem_of_getLast? hl)) rfl
+      | some z =>
+        simp only [Option.some_or]
+        have := i2 hne
+        rw [ht] at this; exact this
+    | esc e =>
+      simp only [spanItemsOK, Bool.and_eq_true] at h
+      obtain ⟨i1, i2⟩ := ih h.2 har hbr
+      refine ⟨i1, fun hne => ?_⟩
+      simp only [splitSpans] at hne ⊢
+      cases ht : (splitSpans r).1 with
+      | nil =>
+        have hsc := (split_fst_nil r h.2).1 ht
+        rcases hsc with rfl | hsc
+        · simp [splitSpans] at hne
+        · cases r with
+          | nil => simp [startsCode] at hsc
+          | cons y r' =>
+            cases y <;> simp [startsCode] at hsc
+            simp only [noBsBeforeCode, Bool.and_eq_true, bne_iff_ne, ne_eq] at hb
+            simpa using hb.1
+      | cons a b =>
+        have := i2 hne
+        rw [ht] at this
+        simpa [List.getLast?_cons_cons] using this
+    | code b =>
+      simp only [spanItemsOK, Bool.and_eq_true] at h
+      obtain ⟨i1, i2⟩ := ih h.2 har hbr
+      refine ⟨?_, by simp [splitSpans]⟩
+      simp only [splitSpans]
+      cases hss : (splitSpans r).2 with
+      | nil => trivial
+      | cons q qs =>
+        rw [hss] at i1 i2
+        refine ⟨?_, i2 (by simp), i1⟩
+        -- the next item is not a code span
+        intro ht
+        have hsc := (split_fst_nil r h.2).1 ht
+        rcases hsc with rfl | hsc
+        · simp [splitSpans] at hss
+        · cases r with
+          | nil => simp [startsCode] at hsc
+          | cons y r' =>
+            cases y <;> simp [startsCode] at hsc
+            rw [okAdjacents] at ha
+            simp [okAdjacent, isCodeSpan] at ha
+    | em _ => simp [spanItemsOK] at h
+    | strong _ => simp [spanItemsOK] at h
+    | link _ _ _ => simp [spanItemsOK] at h
+    | image _ _ _ => simp [spanItemsOK] at h
+    | autolink _ => simp [spanItemsOK] at h
+    | br => simp [spanItemsOK] at h
+
+
+theorem alnumSp_last_visible (w : Str) (hw : wfWords w = true) (hl : w.getLast? ≠ some ' ') :
+    ∀ z, w.getLast? = some z → isSpace z = false := by
+  intro z hz
+  simp only [wfWords, Bool.and_eq_true] at hw
+  have hza : isAlnumSp z = true := List.all_eq_true.1 hw.1.2 z (List.mem_of_getLast? hz)
+  exact alnum_visible z hza (fun e => hl (e ▸ hz))
+
+theorem split_first (c : List DocSpec.Inline) (h : spanItemsOK c = true) (hs : startsOk c = true)
+    (hne : (splitSpans c).1 ≠ []) : startsVisible (splitSpans c).1 = true := by
+  cases c with
+  | nil => simp [startsOk] at hs
+  | cons x r =>
+    cases x with
+    | text w =>
+      simp only [spanItemsOK, Bool.and_eq_true, wfWords, Bool.not_eq_true'] at h
+      simp only [startsOk, bne_iff_ne, ne_eq] at hs
+      cases w with
+      | nil => simp at h
+      | cons a b =>
+        have ha : isAlnumSp a = true := by
+          have := h.1.1.2; simp only [List.all_cons, Bool.and_eq_true] at this; exact this.1
+        have : a ≠ ' ' := by simpa using hs
+        simp [splitSpans, startsVisible, alnum_visible a ha this]
+    | esc ch =>
+      simp only [spanItemsOK, Bool.and_eq_true] at h
+      simp [splitSpans, startsVisible, (escChar_facts _ (List.contains_iff_mem.1 h.1)).2.2]
+    | code b => simp [splitSpans] at hne
+    | em _ => simp [spanItemsOK] at h
+    | strong _ => simp [spanItemsOK] at h
+    | link _ _ _ => simp [spanItemsOK] at h
+    | image _ _ _ => simp [spanItemsOK] at h
+    | autolink _ => simp [spanItemsOK] at h
+    | br => simp [spanItemsOK] at h
+
+/-- the plain text at the end of the content -/
+def lastTextS (p : Str × List (Str × Str)) : Str := (p.2.getLast?.map (·.2)).getD p.1
+
+theorem endsOk_tail {x y : DocSpec.Inline} {r : List DocSpec.Inline} (h : endsOk (x :: y :: r) = true) :
+    endsOk (y :: r) = true := by
+  cases x <;> simpa [endsOk] using h
+
+theorem split_nil_iff (c : List DocSpec.Inline) (h : spanItemsOK c = true) :
+    ((splitSpans c).1 = [] ∧ (splitSpans c).2 = []) ↔ c = [] := by
+  constructor
+  · intro ⟨h1, h2⟩
+    rcases (split_fst_nil c h).1 h1 with rfl | hsc
+    · rfl
+    · cases c with
+      | nil => rfl
+      | cons y r => cases y <;> simp [startsCode] at hsc; simp [splitSpans] at h2
+  · intro e; subst e; simp [splitSpans]
+
+theorem split_last (c : List DocSpec.Inline) (h : spanItemsOK c = true) (he : endsOk c = true) :
+    ∀ z, (lastTextS (splitSpans c)).getLast? = some z → isSpace z = false := by
+  induction c with
+  | nil => simp [endsOk] at he
+  | cons x r ih =>
+    -- facts about the rest
+    have hrest : r ≠ [] → ∀ z, (lastTextS (splitSpans r)).getLast? = some z → isSpace z = false := by
+      intro hr
+      cases r with
+      | nil => exact absurd rfl hr
+      | cons y r' =>
+        have hok : spanItemsOK (y :: r') = true := by
+          cases x <;> simp [spanItemsOK] at h <;> first | exact h.2 | skip
+        exact ih hok (endsOk_tail he)
+    have hlt : ∀ (t : Str) (ss : List (Str × Str)), ss ≠ [] → ∀ t', lastTextS (t, ss) = lastTextS (t', ss) := by
+      intro t ss hss t'
+      simp only [lastTextS]
+      cases hg : ss.getLast? with
+      | none => exact absurd (List.getLast?_eq_none_iff.1 hg) hss
+      | some q => rfl
+    cases x with
+    | text w =>
+      simp only [spanItemsOK, Bool.and_eq_true] at h
+      intro z hz
+      by_cases hss : (splitSpans r).2 = []
+      · simp only [splitSpans, lastTextS, hss, List.getLast?_nil, Option.map_none, Option.getD_none] at hz
+        by_cases ht : (splitSpans r).1 = []
+        · have hr : r = [] := (split_nil_iff r h.2).1 ⟨ht, hss⟩
+          subst hr
+          simp only [ht, List.append_nil] at hz
+          simp only [endsOk, bne_iff_ne, ne_eq] at he
+          exact alnumSp_last_visible w h.1 he z hz
+        · have hr : r ≠ [] := fun e => ht (by subst e; rfl)
+          apply hrest hr z
+          simp only [lastTextS, hss, List.getLast?_nil, Option.map_none, Option.getD_none]
+          rw [List.getLast?_append] at hz
+          cases hx : (splitSpans r).1.getLast? with
+          | none => exact absurd (List.getLast?_eq_none_iff.1 hx) ht
+          | some q => rw [hx] at hz; simpa using hz
+      · have hr : r ≠ [] := fun e => hss (by subst e; rfl)
+        apply hrest hr z
+        rw [hlt _ _ hss (w ++ (splitSpans r).1)]
+        exact hz
+    | esc ch =>
+      simp only [spanItemsOK, Bool.and_eq_true] at h
+      intro z hz
+      by_cases hss : (splitSpans r).2 = []
+      · simp only [splitSpans, lastTextS, hss, List.getLast?_nil, Option.map_none, Option.getD_none] at hz
+        by_cases ht : (splitSpans r).1 = []
+        · simp only [ht, List.getLast?_singleton, Option.some.injEq] at hz
+          subst hz
+          exact (escChar_facts _ (List.contains_iff_mem.1 h.1)).2.2
+        · have hr : r ≠ [] := fun e => ht (by subst e; rfl)
+          apply hrest hr z
+          simp only [lastTextS, hss, List.getLast?_nil, Option.map_none, Option.getD_none]
+          cases hx : (splitSpans r).1 with
+          | nil => exact absurd hx ht
+          | cons a b => rw [hx] at hz; simpa [List.getLast?_cons_cons] using hz
+      · have hr : r ≠ [] := fun e => hss (by subst e; rfl)
+        apply hrest hr z
+        rw [hlt _ _ hss (ch :: (splitSpans r).1)]
+        exact hz
+    | code b =>
+      simp only [spanItemsOK, Bool.and_eq_true] at h
+      intro z hz
+      have hl : lastTextS (splitSpans (.code b :: r)) = lastTextS (splitSpans r) := by
+        simp only [splitSpans, lastTextS]
+        cases hss : (splitSpans r).2 with
+        | nil => simp
+        | cons q qs =>
+          simp only [List.getLast?_cons_cons]
+          cases hg : (q :: qs).getLast? with
+          | none => exact absurd (List.getLast?_eq_none_iff.1 hg) (by simp)
+          | some x => rfl
+      rw [hl] at hz
+      by_cases hr : r = []
+      · subst hr; simp [splitSpans, lastTextS] at hz
+      · exact hrest hr z hz
+    | em _ => simp [spanItemsOK] at h
+    | strong _ => simp [spanItemsOK] at h
+    | link _ _ _ => simp [spanItemsOK] at h
+    | image _ _ _ => simp [spanItemsOK] at h
+    | autolink _ => simp [spanItemsOK] at h
+    | br => simp [spanItemsOK] at h
+
+
+/-! #### fences -/
+
+theorem tickRunAux_mono (s : Str) : ∀ (c1 b1 c2 b2 : Nat), c1 ≤ c2 → b1 ≤ b2 → tickRunAux c1 b1 s ≤ tickRunAux c2 b2 s := by
+  induction s with
+  | nil => intro c1 b1 c2 b2 h1 h2; simp only [tickRunAux]; omega
+  | cons c s ih =>
+    intro c1 b1 c2 b2 h1 h2
+    simp only [tickRunAux]
+    split
+    · exact ih _ _ _ _ (by omega) h2
+    · exact ih _ _ _ _ (Nat.le_refl _) (by omega)
+
+theorem tickRunAux_ge (s : Str) : ∀ (cur best : Nat),
+    best ≤ tickRunAux cur best s ∧ cur + countPrefix '`' none s ≤ tickRunAux cur best s := by
+  induction s with
+  | nil => intro cur best; simp only [tickRunAux, countPrefix]; omega
+  | cons c s ih =>
+    intro cur best
+    by_cases hc : c = '`'
+    · have := ih (cur + 1) best
+      simp only [tickRunAux, hc, if_true, countPrefix, Option.map_none]
+      omega
+    · have := ih 0 (max cur best)
+      simp only [tickRunAux, hc, if_false, countPrefix]
+      omega
+
+/-- every run of backticks in `s` is at most the longest one -/
+theorem countPrefix_le_longest (pre x : Str) : countPrefix '`' none x ≤ longestTickRun (pre ++ x) := by
+  unfold longestTickRun
+  have key : ∀ (pre : Str) (cur best : Nat), tickRunAux 0 0 x ≤ tickRunAux cur best (pre ++ x) := by
+    intro pre
+    induction pre with
+    | nil => intro cur best; exact tickRunAux_mono x 0 0 cur best (by omega) (by omega)
+    | cons c pre ih =>
+      intro cur best
+      simp only [List.cons_append, tickRunAux]
+      split <;> exact ih _ _
+  have := (tickRunAux_ge x 0 0).2
+  have := key pre 0 0
+  omega
+
+theorem tickRunAux_snoc_space (s : Str) : ∀ (cur best : Nat), tickRunAux cur best (s ++ [' ']) = tickRunAux cur best s := by
+  induction s with
+  | nil => intro cur best; simp [tickRunAux]
+  | cons c s ih => intro cur best; simp only [List.cons_append, tickRunAux]; split <;> exact ih _ _
+
+theorem longest_padded (b : Str) : longestTickRun (padded b) = longestTickRun b := by
+  unfold padded codePad
+  split
+  · simp only [List.cons_append, longestTickRun, tickRunAux,
+      show (' ' : Char) ≠ '`' by decide, if_false, Nat.max_self]
+    exact tickRunAux_snoc_space b 0 0
+  · simp only [List.nil_append, List.append_nil]
+
+theorem noCloser_of_short (k : Nat) (s : Str) (pre : Str) (prev : Char)
+    (h : longestTickRun (pre ++ s) < k) : noCloser k prev s = true := by
+  induction s generalizing pre prev with
+  | nil => rfl
+  | cons c s ih =>
+    have h1 := countPrefix_le_longest pre (c :: s)
+    have h2 : (countPrefix '`' none (c :: s) == k) = false := by
+      simp only [beq_eq_false_iff_ne, ne_eq]; omega
+    simp only [noCloser, h2, Bool.and_false, Bool.not_false, Bool.true_and]
+    have := ih (pre ++ [c]) c (by simpa [List.append_assoc] using h)
+    exact this
+
+theorem lastCh_eq (prev : Char) (s : Str) : some (lastCh prev s) = lastOr (some prev) s := by
+  induction s generalizing prev with
+  | nil => rfl
+  | cons c s ih =>
+    simp only [lastCh]
+    rw [ih c]
+    cases s with
+    | nil => rfl
+    | cons d s' =>
+      simp only [lastOr, List.getLast?_cons_cons]
+      cases hg : (d :: s').getLast? with
+      | none => exact absurd (List.getLast?_eq_none_iff.1 hg) (by simp)
+      | some q => rfl
+
+theorem wfCodeSpan_facts {b : Str} (h : wfCodeSpan b = true) :
+    b ≠ [] ∧ (∀ c ∈ b, isPrintable c = true) ∧ b.head? ≠ some ' ' ∧ b.getLast? ≠ some ' ' ∧
+      longestTickRun b ≤ 2 ∧ noAmpHash b = true := by
+  simp only [wfCodeSpan, Bool.and_eq_true, Bool.not_eq_true', List.all_eq_true, bne_iff_ne, ne_eq,
+    decide_eq_true_eq] at h
+  obtain ⟨⟨⟨⟨⟨h1, h2⟩, h3⟩, h4⟩, h5⟩, h6⟩ := h
+  exact ⟨by intro e; subst e; simp at h1, h2, h3, h4, h5, h6⟩
+
+/-- the padded body of a well-formed code span, under a fence the printer may choose -/
+theorem padded_ok (n : Nat) (b : Str) (hw : wfCodeSpan b = true) (hf : fenceOK n b) :
+    (∃ k, n = k + 1) ∧ spanBodyOk n (padded b) = true ∧ strip (padded b) = b := by
+  obtain ⟨hne, hpr, hh, hl, _, _⟩ := wfCodeSpan_facts hw
+  refine ⟨⟨n - 1, by have := hf.1; omega⟩, ?_, ?_⟩
+  · have hlong : longestTickRun (padded b) < n := by rw [longest_padded]; have := hf.1; omega
+    obtain ⟨c0, r0, hb⟩ : ∃ c0 r0, b = c0 :: r0 := by
+      cases b with
+      | nil => exact absurd rfl hne
+      | cons a r => exact ⟨a, r, rfl⟩
+    obtain ⟨z, hz⟩ : ∃ z, b.getLast? = some z := by
+      cases hx : b.getLast? with
+      | none => exact absurd (List.getLast?_eq_none_iff.1 hx) hne
+      | some z => exact ⟨z, rfl⟩
+    by_cases hp : (b.head? = some '`' || b.getLast? = some '`') = true
+    · have hpad : padded b = ' ' :: (b ++ [' ']) := by simp [padded, codePad, hp]
+      rw [hpad]
+      simp only [spanBodyOk, Bool.and_eq_true, bne_iff_ne, ne_eq]
+      refine ⟨⟨by decide, ?_⟩, noCloser_of_short n _ [' '] ' ' (by rw [hpad] at hlong; simpa using hlong)⟩
+      have := lastCh_eq ' ' (b ++ [' '])
+      simp only [lastOr, List.getLast?_append, List.getLast?_singleton, Option.some_or] at this
+      intro e; rw [e] at this; cases this
+    · have hpad : padded b = b := by simp [padded, codePad, hp]
+      have hp' : b.head? ≠ some '`' ∧ b.getLast? ≠ some '`' := by
+        simp only [Bool.or_eq_true, decide_eq_true_eq, not_or] at hp; exact hp
+      rw [hpad, hb]
+      simp only [spanBodyOk, Bool.and_eq_true, bne_iff_ne, ne_eq]
+      refine ⟨⟨?_, ?_⟩, noCloser_of_short n _ [c0] c0 (by rw [hpad, hb] at hlong; simpa using hlong)⟩
+      · intro e; apply hp'.1; rw [hb, e]; rfl
+      · have := lastCh_eq c0 r0
+        intro e
+        rw [e] at this
+        apply hp'.2
+        rw [hb]
+        cases r0 with
+        | nil => simp [lastOr] at this; simp [this.symm]
+        | cons d r1 =>
+          simp only [lastOr, List.getLast?_cons_cons] at this ⊢
+          cases hg : (d :: r1).getLast? with
+          | none => exact absurd (List.getLast?_eq_none_iff.1 hg) (by simp)
+          | some q => rw [hg] at this; simpa using this.symm
+  · have hpadb : ∀ p : Str, (p = [] ∨ p = [' ']) → isBlank p = true := by
+      intro p hp; rcases hp with rfl | rfl <;> decide
+    have hcp : codePad b = [] ∨ codePad b = [' '] := by unfold codePad; split <;> simp
+    unfold padded
+    rw [strip_append_of_blank (hpadb _ hcp) (hpadb _ hcp)]
+    apply strip_eq_self
+    · intro c hc
+      have hcm : c ∈ b := List.mem_of_mem_head? hc
+      exact (printable_facts (hpr c hcm)).2.2.2.2.2 (fun e => hh (e ▸ hc))
+    · intro c hc
+      have hcm : c ∈ b := List.mem_of_getLast? hc
+      exact (printable_facts (hpr c hcm)).2.2.2.2.2 (fun e => hl (e ▸ hc))
+
+/-! ### 14. from well-formed content to the facts the stages need -/
+
+/-- everything the proofs use of well-formed content of words, escapes and code spans, about its split form `t0`,
+    `segs` (the spans with the fences the printer chose) -/
+structure ContentOK (c : List DocSpec.Inline) (t0 : Str) (segs : List SpanSeg) : Prop where
+  items : spanItemsOK c = true
+  run : wfRun .none c = true
+  nobs : noBsBeforeCode c = true
+  t0eq : t0 = (splitSpans c).1
+  smap : segs.map (fun s => (s.b, s.t)) = (splitSpans c).2
+  fences : ∀ s ∈ segs, fenceOK s.n s.b
+
+theorem mem_segs_split {c : List DocSpec.Inline} {t0 : Str} {segs : List SpanSeg} (h : ContentOK c t0 segs)
+    {s : SpanSeg} (hs : s ∈ segs) : (s.b, s.t) ∈ (splitSpans c).2 := by
+  rw [← h.smap]; exact List.mem_map.2 ⟨s, hs, rfl⟩
+
+theorem segsOK_of (segs : List SpanSeg) (h1 : gapsOK (segs.map (fun s => (s.b, s.t))))
+    (h2 : ∀ s ∈ segs, wfCodeSpan s.b = true ∧ fenceOK s.n s.b) : SegsOK segs := by
+  induction segs with
+  | nil => trivial
+  | cons s r ih =>
+    obtain ⟨hw, hf⟩ := h2 s List.mem_cons_self
+    obtain ⟨a1, a2, a3⟩ := padded_ok s.n s.b hw hf
+    cases r with
+    | nil => exact ⟨a1, a2, a3, fun hne => absurd rfl hne, trivial⟩
+    | cons q r' =>
+      simp only [List.map_cons, gapsOK] at h1
+      exact ⟨a1, a2, a3, fun _ => ⟨h1.1, h1.2.1⟩,
+        ih (by simpa using h1.2.2) (fun x hx => h2 x (List.mem_cons_of_mem _ hx))⟩
+
+theorem lastText_eq (t0 : Str) (segs : List SpanSeg) :
+    lastText t0 segs = lastTextS (t0, segs.map (fun s => (s.b, s.t))) := by
+  simp only [lastText, lastTextS, List.getLast?_map]
+  cases segs.getLast? <;> rfl
+
+theorem ContentOK.facts {c : List DocSpec.Inline} {t0 : Str} {segs : List SpanSeg} (h : ContentOK c t0 segs) :
+    SegsOK segs ∧ LineOK t0 segs ∧
+    (∀ ch, (ch ∈ t0 ∨ ∃ s ∈ segs, ch ∈ s.t) → plainCh ch) ∧
+    (∀ s ∈ segs, wfCodeSpan s.b = true ∧ noLt s.b = true) ∧
+    (segs ≠ [] → t0.getLast? ≠ some '\\') := by
+  have hrun := h.run
+  simp only [wfRun, Bool.and_eq_true, decide_eq_true_eq, Bool.or_eq_true] at hrun
+  obtain ⟨⟨⟨hst, hen⟩, hadj⟩, _⟩ := hrun
+  obtain ⟨hc0, hcs⟩ := split_chars c h.items
+  obtain ⟨hg, hgl⟩ := split_gaps c h.items hadj h.nobs
+  have hbody : ∀ s ∈ segs, wfCodeSpan s.b = true ∧ noLt s.b = true :=
+    fun s hs => (hcs _ (mem_segs_split h hs)).2
+  have hplain : ∀ ch, (ch ∈ t0 ∨ ∃ s ∈ segs, ch ∈ s.t) → plainCh ch := by
+    intro ch hch
+    rcases hch with hch | ⟨s, hs, hch⟩
+    · rw [h.t0eq] at hch; exact hc0 ch hch
+    · exact (hcs _ (mem_segs_split h hs)).1 ch hch
+  have hsegs : SegsOK segs := segsOK_of segs (by rw [h.smap]; exact hg)
+    (fun s hs => ⟨(hbody s hs).1, h.fences s hs⟩)
+  have hne : c ≠ [] := by intro e; subst e; simp [startsOk] at hst
+  refine ⟨hsegs, ⟨?_, ?_, ?_, ?_, ?_⟩, hplain, hbody, ?_⟩
+  · exact fun hm => (plainCh_facts (hplain _ (Or.inl hm))).2.1 rfl
+  · intro s hs
+    obtain ⟨hw, _⟩ := hbody s hs
+    obtain ⟨_, hpr, _⟩ := wfCodeSpan_facts hw
+    refine ⟨(padded_ok s.n s.b hw (h.fences s hs)).1, ?_, fun hm => (plainCh_facts (hplain _ (Or.inr ⟨s, hs, hm⟩))).2.1 rfl⟩
+    intro hm
+    simp only [padded, List.mem_append] at hm
+    have hpad : ∀ x ∈ codePad s.b, x = ' ' := by
+      intro x hx; unfold codePad at hx; split at hx <;> simp at hx; exact hx
+    rcases hm with (hm | hm) | hm
+    · exact absurd (hpad _ hm) (by decide)
+    · exact (printable_facts (hpr _ hm)).1 rfl
+    · exact absurd (hpad _ hm) (by decide)
+  · by_cases ht : t0 = []
+    · right
+      intro hs
+      have : (splitSpans c).1 = [] ∧ (splitSpans c).2 = [] := by
+        rw [← h.t0eq, ← h.smap, hs]; exact ⟨ht, rfl⟩
+      exact hne ((split_nil_iff c h.items).1 this)
+    · exact Or.inl ht
+  · intro ht
+    rw [h.t0eq] at ht ⊢
+    exact split_first c h.items hst ht
+  · intro z hz
+    rw [lastText_eq, h.smap, h.t0eq] at hz
+    exact split_last c h.items hen z hz
+  · intro hs
+    rw [h.t0eq]
+    apply hgl
+    rw [← h.smap]
+    simpa using hs
+
+theorem ContentOK.spanTxtOK {c : List DocSpec.Inline} {t0 : Str} {segs : List SpanSeg} (h : ContentOK c t0 segs)
+    (tag : Str) (htag : textTags.contains tag = true) : SpanTxtOK ESC tag t0 segs := by
+  obtain ⟨h1, h2, h3, h4, h5⟩ := h.facts
+  refine ⟨htag, h1, h5, fun ch hch => ?_, fun s hs => ?_, h2.ne⟩
+  · obtain ⟨_, a2, a3, _, a5⟩ := plainCh_facts (h3 ch hch); exact ⟨a3, a2, a5⟩
+  · intro hm
+    obtain ⟨_, hpr, _⟩ := wfCodeSpan_facts (h4 s hs).1
+    rcases mem_codeEscape hm with hm | hm
+    · exact (printable_facts (hpr _ hm)).2.2.2.1 rfl
+    · revert hm; decide
+
+
+/-! #### the printed line is safe for the preprocessors -/
+
+/-- a character that the preprocessors leave alone and that is not `<` -/
+def okCh (c : Char) : Prop :=
+  c ≠ '\n' ∧ c ≠ Normalize.STX ∧ c ≠ Normalize.ETX ∧ c ≠ '\r' ∧ c ≠ '\t' ∧ c ≠ '<'
+
+theorem okCh_plain {c : Char} (h : isPlainChar c = true) (hnl : c ≠ '\n') : okCh c := by
+  simp only [isPlainChar, Bool.and_eq_true, bne_iff_ne, ne_eq] at h
+  exact ⟨hnl, h.1.1.1.2, h.1.1.2, h.2, h.1.2, h.1.1.1.1.1⟩
+
+theorem okCh_printable {c : Char} (h : isPrintable c = true) (hlt : c ≠ '<') : okCh c := by
+  obtain ⟨a1, a2, a3, a4, a5, _⟩ := printable_facts h
+  exact ⟨a1, a4, a5, a2, a3, hlt⟩
+
+theorem safe_of_okCh (L : Str) (hch : ∀ c ∈ L, okCh c) (hink : ∃ c ∈ L, c ≠ ' ') :
+    lineSafe L = true ∧ '<' ∉ L := by
+  refine ⟨?_, fun hm => (hch _ hm).2.2.2.2.2 rfl⟩
+  simp only [lineSafe, Bool.and_eq_true, List.all_eq_true, Bool.or_eq_true, List.any_eq_true, bne_iff_ne, ne_eq]
+  refine ⟨fun x hx => ?_, Or.inr ?_⟩
+  · obtain ⟨a1, a2, a3, a4, a5, _⟩ := hch x hx
+    exact ⟨⟨⟨⟨a1, a2⟩, a3⟩, a4⟩, a5⟩
+  · obtain ⟨x, hx, hne⟩ := hink
+    exact ⟨x, hx, by simpa using hne⟩
+
+theorem raw_chars {c : List DocSpec.Inline} {t0 : Str} {segs : List SpanSeg} (h : ContentOK c t0 segs) :
+    ∀ ch ∈ escAll ESC t0 ++ rawSegs ESC segs, okCh ch := by
+  obtain ⟨_, _, h3, h4, _⟩ := h.facts
+  have hpl : ∀ x, plainCh x → okCh x := fun x hx => okCh_plain (plainCh_facts hx).1 (plainCh_facts hx).2.1
+  have hesc : ∀ (t : Str), (∀ x ∈ t, plainCh x) → ∀ x ∈ escAll ESC t, okCh x := by
+    intro t ht x hx
+    rcases mem_escAll hx with rfl | hx
+    · exact ⟨by decide, by decide, by decide, by decide, by decide, by decide⟩
+    · exact hpl x (ht x hx)
+  intro ch hch
+  rcases List.mem_append.1 hch with hch | hch
+  · exact hesc t0 (fun x hx => h3 x (Or.inl hx)) ch hch
+  · rcases mem_rawSegs hch with rfl | ⟨s, hs, hc | hc⟩
+    · exact ⟨by decide, by decide, by decide, by decide, by decide, by decide⟩
+    · obtain ⟨hw, hlt⟩ := h4 s hs
+      obtain ⟨_, hpr, _⟩ := wfCodeSpan_facts hw
+      simp only [padded, List.mem_append] at hc
+      have hpad : ∀ x ∈ codePad s.b, x = ' ' := by
+        intro x hx; unfold codePad at hx; split at hx <;> simp at hx; exact hx
+      have hsp : okCh ' ' := ⟨by decide, by decide, by decide, by decide, by decide, by decide⟩
+      rcases hc with (hc | hc) | hc
+      · rw [hpad _ hc]; exact hsp
+      · refine okCh_printable (hpr _ hc) ?_
+        intro e; subst e
+        simp only [noLt, Bool.not_eq_true'] at hlt
+        have : s.b.contains '<' = true := List.contains_iff_mem.2 hc
+        rw [hlt] at this; cases this
+      · rw [hpad _ hc]; exact hsp
+    · exact hesc s.t (fun x hx => h3 x (Or.inr ⟨s, hs, hx⟩)) ch hc
+
+theorem refsClosed_noamp_append (A X : Str) (hA : '&' ∉ A) (hX : refsClosed X = true) : refsClosed (A ++ X) = true := by
+  induction A with
+  | nil => exact hX
+  | cons a A ih =>
+    exact refsClosed_cons_of_ne (fun e => hA (by simp [e])) (ih (fun hm => hA (List.mem_cons_of_mem _ hm)))
+
+theorem no_amp_escAll (t : Str) (h : ∀ x ∈ t, plainCh x) : '&' ∉ escAll ESC t := by
+  intro hm
+  rcases mem_escAll hm with e | hm
+  · exact absurd e (by decide)
+  · exact (plainCh_facts (h _ hm)).2.2.1 rfl
+
+theorem refsClosed_rawSegs (segs : List SpanSeg)
+    (h : ∀ s ∈ segs, (∃ k, s.n = k + 1) ∧ wfCodeSpan s.b = true ∧ ∀ x ∈ s.t, plainCh x) (Z : Str)
+    (hZ : refsClosed Z = true) : refsClosed (rawSegs ESC segs ++ Z) = true := by
+  induction segs with
+  | nil => simpa [rawSegs] using hZ
+  | cons s r ih =>
+    obtain ⟨⟨k, hk⟩, hw, hpl⟩ := h s List.mem_cons_self
+    obtain ⟨_, _, _, _, _, hamp⟩ := wfCodeSpan_facts hw
+    have ihr := ih (fun x hx => h x (List.mem_cons_of_mem _ hx))
+    have hrest : refsClosed (escAll ESC s.t ++ (rawSegs ESC r ++ Z)) = true :=
+      refsClosed_noamp_append _ _ (no_amp_escAll s.t hpl) ihr
+    have hpad : '&' ∉ codePad s.b := by
+      intro hm; unfold codePad at hm; split at hm <;> simp at hm
+    -- after the body: padding, then the closing fence
+    have hafter : ∃ c0 X0, codePad s.b ++ (ticks s.n ++ (escAll ESC s.t ++ (rawSegs ESC r ++ Z))) = c0 :: X0 ∧
+        isNeutral c0 = true ∧ refsClosed (c0 :: X0) = true := by
+      have hcl : refsClosed (ticks s.n ++ (escAll ESC s.t ++ (rawSegs ESC r ++ Z))) = true := refsClosed_ticks _ hrest
+      unfold codePad
+      split
+      · exact ⟨' ', _, rfl, by decide, refsClosed_cons_of_ne (by decide) hcl⟩
+      · rw [hk] at hcl ⊢
+        exact ⟨'`', ticks k ++ (escAll ESC s.t ++ (rawSegs ESC r ++ Z)), by simp [ticks, List.replicate_succ],
+          by decide, by simpa [ticks, List.replicate_succ] using hcl⟩
+    obtain ⟨c0, X0, he, hn, hc⟩ := hafter
+    have hbody : refsClosed (s.b ++ (codePad s.b ++ (ticks s.n ++ (escAll ESC s.t ++ (rawSegs ESC r ++ Z))))) = true := by
+      rw [he]; exact refsClosed_append s.b c0 X0 hn (refsClosed_of_noAmpHash s.b hamp) hc
+    have : rawSegs ESC (s :: r) ++ Z =
+        ticks s.n ++ (codePad s.b ++ (s.b ++ (codePad s.b ++ (ticks s.n ++ (escAll ESC s.t ++ (rawSegs ESC r ++ Z)))))) := by
+      simp [rawSegs, spanSrc, padded, List.append_assoc]
+    rw [this]
+    exact refsClosed_ticks _ (refsClosed_noamp_append _ _ hpad hbody)
+
+theorem refsClosed_raw {c : List DocSpec.Inline} {t0 : Str} {segs : List SpanSeg} (h : ContentOK c t0 segs)
+    (P Q : Str) (hP : '&' ∉ P) (hQ : '&' ∉ Q) :
+    refsClosed (P ++ (escAll ESC t0 ++ rawSegs ESC segs) ++ Q) = true := by
+  obtain ⟨h1, h2, h3, h4, _⟩ := h.facts
+  have hQc : refsClosed Q = true := refsClosed_of_no_amp Q hQ
+  have := refsClosed_rawSegs segs (fun s hs => ⟨(h2.nls s hs).1, (h4 s hs).1, fun x hx => h3 x (Or.inr ⟨s, hs, hx⟩)⟩) Q hQc
+  have h0 := refsClosed_noamp_append _ _ (no_amp_escAll t0 (fun x hx => h3 x (Or.inl hx))) this
+  have := refsClosed_noamp_append P _ hP h0
+  simpa [List.append_assoc] using this
+
+/-! ### 15. the specification side, and the pieces of paragraphs and headings with code spans -/
+
+/-- what `spec` prescribes for the spans and the texts after them -/
+def specSegs : List (Str × Str) → Str
+  | [] => []
+  | bt :: r => S "<code>" ++ htmlEsc bt.1 ++ S "</code>" ++ htmlEsc bt.2 ++ specSegs r
+
+theorem splitSpans_text (w : Str) (r : List DocSpec.Inline) :
+    splitSpans (.text w :: r) = (w ++ (splitSpans r).1, (splitSpans r).2) := rfl
+theorem splitSpans_esc (ch : Char) (r : List DocSpec.Inline) :
+    splitSpans (.esc ch :: r) = (ch :: (splitSpans r).1, (splitSpans r).2) := rfl
+theorem splitSpans_code (b : Str) (r : List DocSpec.Inline) :
+    splitSpans (.code b :: r) = ([], (b, (splitSpans r).1) :: (splitSpans r).2) := rfl
+theorem specSegs_cons (bt : Str × Str) (r : List (Str × Str)) :
+    specSegs (bt :: r) = S "<code>" ++ htmlEsc bt.1 ++ S "</code>" ++ htmlEsc bt.2 ++ specSegs r := rfl
+
+theorem specInline_code (b : Str) : specInline (.code b) = S "<code>" ++ htmlEsc b ++ S "</code>" := rfl
+
+theorem specInlines_split (c : List DocSpec.Inline) (h : spanItemsOK c = true) :
+    specInlines c = htmlEsc (splitSpans c).1 ++ specSegs (splitSpans c).2 := by
+  induction c with
+  | nil => rfl
+  | cons x r ih =>
+    cases x with
+    | text w =>
+      simp only [spanItemsOK, Bool.and_eq_true] at h
+      rw [specInlines_cons, specInline_text, ih h.2, splitSpans_text, htmlEsc_append, List.append_assoc]
+    | esc ch =>
+      simp only [spanItemsOK, Bool.and_eq_true] at h
+      have : ch :: (splitSpans r).1 = [ch] ++ (splitSpans r).1 := rfl
+      rw [specInlines_cons, specInline_esc, ih h.2, splitSpans_esc, this, htmlEsc_append, List.append_assoc]
+    | code b =>
+      simp only [spanItemsOK, Bool.and_eq_true] at h
+      rw [specInlines_cons, specInline_code, ih h.2, splitSpans_code, specSegs_cons]
+      simp only [List.append_assoc]
+      rfl
+    | em _ => simp [spanItemsOK] at h
+    | strong _ => simp [spanItemsOK] at h
+    | link _ _ _ => simp [spanItemsOK] at h
+    | image _ _ _ => simp [spanItemsOK] at h
+    | autolink _ => simp [spanItemsOK] at h
+    | br => simp [spanItemsOK] at h
+
+open Code in
+theorem outSegs_eq (segs : List SpanSeg) (h : ∀ s ∈ segs, '&' ∉ s.t) :
+    outSegs segs = specSegs (segs.map (fun s => (s.b, s.t))) := by
+  induction segs with
+  | nil => rfl
+  | cons s r ih =>
+    rw [outSegs_cons, List.map_cons, specSegs_cons, ih (fun x hx => h x (List.mem_cons_of_mem _ hx)),
+      htmlEsc_eq_escCdata s.t (h s List.mem_cons_self), htmlEsc_eq_codeEscape s.b, codeEscape_onepass,
+      escCdata_codeEscape1]
+
+theorem spanTxtOut_eq {c : List DocSpec.Inline} {t0 : Str} {segs : List SpanSeg} (h : ContentOK c t0 segs)
+    (tag : Str) : spanTxtOut tag t0 segs = '<' :: tag ++ ['>'] ++ specInlines c ++ ('<' :: '/' :: tag ++ ['>']) := by
+  obtain ⟨_, _, h3, _, _⟩ := h.facts
+  have ha0 : '&' ∉ t0 := fun hm => (plainCh_facts (h3 _ (Or.inl hm))).2.2.1 rfl
+  have has : ∀ s ∈ segs, '&' ∉ s.t := fun s hs hm => (plainCh_facts (h3 _ (Or.inr ⟨s, hs, hm⟩))).2.2.1 rfl
+  rw [specInlines_split c h.items, ← h.t0eq, ← h.smap, ← outSegs_eq segs has, htmlEsc_eq_escCdata t0 ha0]
+  simp [spanTxtOut, List.append_assoc]
+
+
+/-! #### the printed blocks as pieces -/
+
+theorem printContent_span (c : List DocSpec.Inline) (brOk : Bool) (hp : spanRun c = true)
+    (hw : wfInlines false .none brOk c = true) (st : PSt) :
+    ∃ (t0 : Str) (segs : List SpanSeg) (st' : PSt),
+      printContent c st = ([escAll ESC t0 ++ rawSegs ESC segs], st') ∧ st'.defs = st.defs ∧ ContentOK c t0 segs := by
+  simp only [spanRun, Bool.and_eq_true] at hp
+  simp only [wfInlines, Bool.and_eq_true] at hw
+  have hitems := spanItemsOK_of_wf c brOk hp.1 hw.2
+  obtain ⟨segs, st', hpr, hd, hm, hf⟩ := printInlines_span c hitems none true true st
+  have hok : ContentOK c (splitSpans c).1 segs := ⟨hitems, hw.1, hp.2, rfl, hm, hf⟩
+  refine ⟨(splitSpans c).1, segs, st', ?_, hd, hok⟩
+  obtain ⟨_, h2, _⟩ := hok.facts
+  have hnl := (rawOK_line escOK_generated _ segs h2).nl
+  simp only [printContent, hpr]
+  rw [splitC_noNl _ (notNl_of_not_mem hnl)]
+
+/-- the facts about a line `P ++ raw ++ Q` around the content -/
+theorem line_facts {c : List DocSpec.Inline} {t0 : Str} {segs : List SpanSeg} (h : ContentOK c t0 segs) (P Q : Str)
+    (hP : ∀ x ∈ P, okCh x ∧ x ≠ '&') (hQ : ∀ x ∈ Q, okCh x ∧ x ≠ '&') :
+    (lineSafe (P ++ (escAll ESC t0 ++ rawSegs ESC segs) ++ Q) = true ∧
+      '<' ∉ P ++ (escAll ESC t0 ++ rawSegs ESC segs) ++ Q ∧
+      refsClosed (P ++ (escAll ESC t0 ++ rawSegs ESC segs) ++ Q) = true) ∧
+    '\n' ∉ P ++ (escAll ESC t0 ++ rawSegs ESC segs) ++ Q ∧
+    ∃ x ∈ P ++ (escAll ESC t0 ++ rawSegs ESC segs) ++ Q, isSpace x = false := by
+  obtain ⟨_, h2, _⟩ := h.facts
+  have hraw := rawOK_line escOK_generated t0 segs h2
+  obtain ⟨c0, tail, he, hcs, _⟩ := hraw.shape
+  have hc0 : c0 ∈ P ++ (escAll ESC t0 ++ rawSegs ESC segs) ++ Q := by rw [he]; simp
+  have hch : ∀ x ∈ P ++ (escAll ESC t0 ++ rawSegs ESC segs) ++ Q, okCh x := by
+    intro x hx
+    simp only [List.mem_append] at hx
+    rcases hx with (hx | hx) | hx
+    · exact (hP x hx).1
+    · exact raw_chars h x (List.mem_append.2 hx)
+    · exact (hQ x hx).1
+  have hs := safe_of_okCh _ hch ⟨c0, hc0, by intro e; subst e; exact absurd hcs (by decide)⟩
+  exact ⟨⟨hs.1, hs.2, refsClosed_raw h P Q (fun hm => (hP _ hm).2 rfl) (fun hm => (hQ _ hm).2 rfl)⟩,
+    fun hm => (hch _ hm).1 rfl, c0, hc0, hcs⟩
+
+theorem okCh_space : okCh ' ' ∧ (' ' : Char) ≠ '&' :=
+  ⟨⟨by decide, by decide, by decide, by decide, by decide, by decide⟩, by decide⟩
+
+theorem okCh_spaces (i : Nat) : ∀ x ∈ spaces i, okCh x ∧ x ≠ '&' := by
+  intro x hx; rw [List.eq_of_mem_replicate hx]; exact okCh_space
+
+/-- a paragraph with code spans, indented by `i < 4` -/
+theorem spanPara_ok {c : List DocSpec.Inline} {t0 : Str} {segs : List SpanSeg} (h : ContentOK c t0 segs) (i : Nat)
+    (hi : i < 4) :
+    Piece2OK {} (spanPiece ESC [spaces i ++ (escAll ESC t0 ++ rawSegs ESC segs)] "p".toList t0 segs) := by
+  obtain ⟨_, h2, _⟩ := h.facts
+  have hraw := rawOK_line escOK_generated t0 segs h2
+  obtain ⟨⟨hs1, hs2, hs3⟩, hnl, hvis⟩ := line_facts h (spaces i) [] (okCh_spaces i) (by simp)
+  simp only [List.append_nil] at hs1 hs2 hs3 hnl hvis
+  apply spanPiece_ok _ _ _ _ (h.spanTxtOK _ (by decide)) (by simp)
+  · simp only [joinLines, join_singleton]
+    apply nel_line _ _ hnl
+    obtain ⟨x, hx, _⟩ := hvis
+    intro e; rw [e] at hx; simp at hx
+  · simp only [joinLines, join_singleton]
+    exact produces_para_raw 4 i hi _ hraw
+  · intro l hl
+    have : l = spaces i ++ (escAll ESC t0 ++ rawSegs ESC segs) := by simpa using hl
+    subst this; exact ⟨hs1, hs2, hs3⟩
+  · simpa [joinLines] using hvis
+
+
+/-- a Setext heading with code spans -/
+theorem spanSetext_ok {c : List DocSpec.Inline} {t0 : Str} {segs : List SpanSeg} (h : ContentOK c t0 segs)
+    (i : Nat) (hi : i < 4) (lv k : Nat) (hlv : lv = 1 ∨ lv = 2) :
+    Piece2OK {} (spanPiece ESC [spaces i ++ (escAll ESC t0 ++ rawSegs ESC segs),
+      List.replicate (k + 1) (if lv = 1 then '=' else '-')] ('h' :: natToDec lv) t0 segs) := by
+  obtain ⟨_, h2, _⟩ := h.facts
+  have hraw := rawOK_line escOK_generated t0 segs h2
+  obtain ⟨⟨hs1, hs2, hs3⟩, hnl, hvis⟩ := line_facts h (spaces i) [] (okCh_spaces i) (by simp)
+  simp only [List.append_nil] at hs1 hs2 hs3 hnl hvis
+  have hprod := produces_setext_raw 4 i hi _ hraw lv k hlv
+  generalize hu : (if lv = 1 then '=' else '-') = ch at *
+  have hch2 : ch = '=' ∨ ch = '-' := by rw [← hu]; split <;> simp
+  have hunl : '\n' ∉ List.replicate (k + 1) ch := by
+    intro hm; have := List.eq_of_mem_replicate hm
+    rcases hch2 with h' | h' <;> rw [h'] at this <;> exact absurd this (by decide)
+  have hjoin : joinLines [spaces i ++ (escAll ESC t0 ++ rawSegs ESC segs), List.replicate (k + 1) ch] =
+      spaces i ++ (escAll ESC t0 ++ rawSegs ESC segs) ++ '\n' :: List.replicate (k + 1) ch := by
+    simp [joinLines, join]
+  have hlne : spaces i ++ (escAll ESC t0 ++ rawSegs ESC segs) ≠ [] := by
+    obtain ⟨x, hx, _⟩ := hvis
+    intro e; rw [e] at hx; simp at hx
+  apply spanPiece_ok _ _ _ _ (h.spanTxtOK _ (hTag_mem lv (by omega) (by omega))) (by simp)
+  · rw [hjoin]
+    exact nel_two_lines _ _ hlne (by simp [List.replicate_succ]) hnl hunl
+  · rw [hjoin]; exact hprod
+  · intro l hl
+    simp only [List.mem_cons, List.mem_nil_iff, or_false] at hl
+    rcases hl with rfl | rfl
+    · exact ⟨hs1, hs2, hs3⟩
+    · have hall : ∀ x ∈ List.replicate (k + 1) ch, okCh x ∧ x ≠ '&' := by
+        intro x hx; rw [List.eq_of_mem_replicate hx]
+        rcases hch2 with h' | h' <;> rw [h'] <;>
+          exact ⟨⟨by decide, by decide, by decide, by decide, by decide, by decide⟩, by decide⟩
+      have := safe_of_okCh _ (fun x hx => (hall x hx).1)
+        ⟨ch, by simp [List.replicate_succ], by rcases hch2 with h' | h' <;> rw [h'] <;> decide⟩
+      exact ⟨this.1, this.2, refsClosed_of_no_amp _ (fun hm => (hall _ hm).2 rfl)⟩
+  · obtain ⟨x, hx, hxs⟩ := hvis
+    exact ⟨x, by rw [hjoin]; exact List.mem_append_left _ hx, hxs⟩
+
+/-- an ATX heading with code spans -/
+theorem spanAtx_ok {c : List DocSpec.Inline} {t0 : Str} {segs : List SpanSeg} (h : ContentOK c t0 segs)
+    (lv : Nat) (h1 : 1 ≤ lv) (h6 : lv ≤ 6) (Y : Str) (hY : Y = [] ∨ ∃ m, Y = ' ' :: List.replicate m '#') :
+    Piece2OK {} (spanPiece ESC [List.replicate lv '#' ++ ' ' :: ((escAll ESC t0 ++ rawSegs ESC segs) ++ Y)]
+      ('h' :: natToDec lv) t0 segs) := by
+  obtain ⟨_, h2, _⟩ := h.facts
+  have hraw := rawOK_line escOK_generated t0 segs h2
+  have hhash : okCh '#' ∧ ('#' : Char) ≠ '&' :=
+    ⟨⟨by decide, by decide, by decide, by decide, by decide, by decide⟩, by decide⟩
+  have hP : ∀ x ∈ List.replicate lv '#' ++ [' '], okCh x ∧ x ≠ '&' := by
+    intro x hx
+    rcases List.mem_append.1 hx with hx | hx
+    · rw [List.eq_of_mem_replicate hx]; exact hhash
+    · have : x = ' ' := by simpa using hx
+      rw [this]; exact okCh_space
+  have hQ : ∀ x ∈ Y, okCh x ∧ x ≠ '&' := by
+    intro x hx
+    rcases hY with rfl | ⟨m, rfl⟩
+    · simp at hx
+    · rcases List.mem_cons.1 hx with hx | hx
+      · rw [hx]; exact okCh_space
+      · rw [List.eq_of_mem_replicate hx]; exact hhash
+  obtain ⟨⟨hs1, hs2, hs3⟩, hnl, hvis⟩ := line_facts h _ Y hP hQ
+  have hline : List.replicate lv '#' ++ [' '] ++ (escAll ESC t0 ++ rawSegs ESC segs) ++ Y =
+      List.replicate lv '#' ++ ' ' :: ((escAll ESC t0 ++ rawSegs ESC segs) ++ Y) := by simp [List.append_assoc]
+  rw [hline] at hs1 hs2 hs3 hnl hvis
+  apply spanPiece_ok _ _ _ _ (h.spanTxtOK _ (hTag_mem lv h1 h6)) (by simp)
+  · simp only [joinLines, join_singleton]
+    apply nel_line _ _ hnl
+    obtain ⟨x, hx, _⟩ := hvis
+    intro e; rw [e] at hx; simp at hx
+  · simp only [joinLines, join_singleton]
+    exact produces_atx_raw 4 (by omega) _ hraw lv h1 h6 Y hY
+  · intro l hl
+    have : l = List.replicate lv '#' ++ ' ' :: ((escAll ESC t0 ++ rawSegs ESC segs) ++ Y) := by simpa using hl
+    subst this; exact ⟨hs1, hs2, hs3⟩
+  · simpa [joinLines] using hvis
+
+
+/-! #### every printed block of the sub-grammar -/
+
+theorem spanPiece_out (g : List Str) (tag t0 : Str) (segs : List SpanSeg) :
+    (spanPiece ESC g tag t0 segs).elem.out = spanTxtOut tag t0 segs := rfl
+
+theorem printBlock_span (b : DocSpec.Block) (hf : isSpanBlock b = true) (hw : wfBlock none b = true) (st : PSt) :
+    ∃ (p : Piece2) (st' : PSt), printBlock true b st = (p.b.g, st') ∧ st'.defs = st.defs ∧
+      Piece2OK {} p ∧ p.elem.out = specBlock b ∧ p.b.isCode = isCode b := by
+  cases b with
+  | rule => exact printBlock_flatCode .rule rfl hw st
+  | code ls => exact printBlock_flatCode (.code ls) hf hw st
+  | para c =>
+    simp only [isSpanBlock] at hf
+    simp only [wfBlock] at hw
+    obtain ⟨t0, segs, st', hpc, hd, hok⟩ := printContent_span c true hf hw (draw st).2
+    refine ⟨spanPiece ESC [spaces ((draw st).1 % 4) ++ (escAll ESC t0 ++ rawSegs ESC segs)] "p".toList t0 segs,
+      st', ?_, by rw [hd, draw_defs], spanPara_ok hok _ (Nat.mod_lt _ (by omega)), ?_, rfl⟩
+    · rw [printBlock_para, hpc]; rfl
+    · rw [spanPiece_out, spanTxtOut_eq hok, specBlock_para]
+      simp [S]
+  | atx l c =>
+    simp only [isSpanBlock] at hf
+    simp only [wfBlock, Bool.and_eq_true, decide_eq_true_eq] at hw
+    obtain ⟨t0, segs, st', hpc, hd, hok⟩ := printContent_span c false hf hw.2 (draw st).2
+    have hY : atxClosing (draw st).1 l = [] ∨ ∃ m, atxClosing (draw st).1 l = ' ' :: List.replicate m '#' := by
+      unfold atxClosing
+      split
+      · exact Or.inl rfl
+      · split
+        · exact Or.inr ⟨1, rfl⟩
+        · exact Or.inr ⟨l, rfl⟩
+    refine ⟨spanPiece ESC [List.replicate l '#' ++ ' ' :: ((escAll ESC t0 ++ rawSegs ESC segs) ++
+        atxClosing (draw st).1 l)] ('h' :: natToDec l) t0 segs,
+      st', ?_, by rw [hd, draw_defs], spanAtx_ok hok l hw.1.1 hw.1.2 _ hY, ?_, rfl⟩
+    · rw [printBlock_atx, hpc]
+      simp [atxLine, join, rep, List.append_assoc, spanPiece, chunkB]
+    · rw [spanPiece_out, spanTxtOut_eq hok, specBlock_atx]
+      simp [S, List.append_assoc]
+  | setext l c =>
+    simp only [isSpanBlock] at hf
+    simp only [wfBlock, Bool.and_eq_true, Bool.or_eq_true, decide_eq_true_eq] at hw
+    obtain ⟨t0, segs, st', hpc, hd, hok⟩ := printContent_span c false hf hw.2 (draw (draw st).2).2
+    refine ⟨spanPiece ESC [spaces ((draw st).1 % 4) ++ (escAll ESC t0 ++ rawSegs ESC segs),
+          List.replicate ((draw (draw st).2).1 % 8 + 1) (if l = 1 then '=' else '-')] ('h' :: natToDec l) t0 segs,
+      st', ?_, by rw [hd]; simp [draw_defs], spanSetext_ok hok _ (Nat.mod_lt _ (by omega)) l _ hw.1, ?_, rfl⟩
+    · rw [printBlock_setext, hpc]; rfl
+    · rw [spanPiece_out, spanTxtOut_eq hok, specBlock_setext]
+      simp [S, List.append_assoc]
+  | quote _ => simp [isSpanBlock] at hf
+  | ulist _ _ => simp [isSpanBlock] at hf
+  | olist _ _ => simp [isSpanBlock] at hf
+
+theorem printBlocks_span (d : Doc) (hne : d ≠ []) (hf : ∀ b ∈ d, isSpanBlock b = true)
+    (hw : ∀ b ∈ d, wfBlock none b = true) (hnext : okNexts d = true) :
+    ∀ st : PSt, ∃ (ps : List Piece2) (st' : PSt), printBlocks true d st = (flatLines (ps.map (·.b.g)), st') ∧
+      st'.defs = st.defs ∧ ps ≠ [] ∧ (∀ p ∈ ps, Piece2OK {} p) ∧
+      joinOutS (ps.map (·.elem.out)) = specBlocks d ∧ noCodeAfterCode (ps.map (·.b)) ∧
+      (ps.head?.map (·.b.isCode) = d.head?.map isCode) := by
+  induction d with
+  | nil => exact absurd rfl hne
+  | cons b r ih =>
+    intro st
+    obtain ⟨p, st1, hp, hd1, hok, hout, hcode⟩ :=
+      printBlock_span b (hf b List.mem_cons_self) (hw b List.mem_cons_self) st
+    cases r with
+    | nil =>
+      refine ⟨[p], st1, ?_, hd1, by simp, ?_, ?_, trivial, by simp [hcode]⟩
+      · rw [printBlocks_one, hp]; rfl
+      · intro q hq; have : q = p := by simpa using hq
+        subst this; exact hok
+      · rw [specBlocks_one, ← hout]; rfl
+    | cons b' r' =>
+      rw [okNexts_cons2, Bool.and_eq_true] at hnext
+      obtain ⟨ps, st2, hps, hd2, hpsne, hoks, houts, hadj, hhead⟩ := ih (by simp)
+        (fun x hx => hf x (List.mem_cons_of_mem _ hx)) (fun x hx => hw x (List.mem_cons_of_mem _ hx)) hnext.2 st1
+      obtain ⟨q, qs, rfl⟩ : ∃ q qs, ps = q :: qs := by
+        cases ps with
+        | nil => exact absurd rfl hpsne
+        | cons q qs => exact ⟨q, qs, rfl⟩
+      have hq : q.b.isCode = isCode b' := by simpa using hhead
+      refine ⟨p :: q :: qs, st2, ?_, by rw [hd2, hd1], by simp, ?_, ?_, ?_, by simp [hcode]⟩
+      · rw [printBlocks_cons2, hp]
+        simp only [hps]
+        rfl
+      · intro x hx
+        rcases List.mem_cons.1 hx with rfl | hx
+        · exact hok
+        · exact hoks x hx
+      · rw [specBlocks_cons2, ← houts, ← hout]; rfl
+      · refine ⟨?_, hadj⟩
+        intro hqc
+        rw [hq] at hqc
+        rw [hcode]
+        have h1 := hnext.1
+        simp only [okNext, hqc, Bool.and_true, Bool.and_eq_true, Bool.not_eq_true', Bool.or_eq_false_iff] at h1
+        exact h1.1.2.1
+
+/-- **C01 on documents with code blocks and code spans**: every spelling of a well-formed document of the
+    sub-grammar converts to what `spec` prescribes -/
+theorem convert_spanDoc (d : Doc) (sp : Spelling) (hwf : WF d = true) (hs : DocSpec.SpanDoc d = true) :
+    Pipeline.convert {} (print d sp) = .ok (spec d) := by
+  simp only [WF, Bool.and_eq_true, Bool.not_eq_true', List.isEmpty_eq_false_iff] at hwf
+  obtain ⟨⟨⟨hne, hnx⟩, hbl⟩, _⟩ := hwf
+  have hf : ∀ b ∈ d, isSpanBlock b = true := by
+    simpa [DocSpec.SpanDoc, List.all_eq_true] using hs
+  obtain ⟨ps, st', hps, hdefs, hpsne, hoks, houts, hadj, _⟩ :=
+    printBlocks_span d hne hf (wfBlockList_mem hbl) hnx ⟨sp.choices, 1, []⟩
   have hprint : print d sp = joinLines (flatLines (ps.map (·.b.g))) := by
     simp only [print, hps]
     have : st'.defs = [] := hdefs
